@@ -297,31 +297,34 @@ theorem upd_ne {β : Type} (f : Nat → β) {a x : Nat} (b : β) (h : x ≠ a) :
 @[simp] theorem acquire_observed (s : State) (k : NoteId) (t : Tid) : (s.acquire k t).observed = s.observed := rfl
 @[simp] theorem acquire_f_parent (s : State) (k : NoteId) (t : Tid) (j : NoteId) :
     ((s.acquire k t).notes j).parent = (s.notes j).parent := by
-  simp only [State.acquire, State.release, State.incDisc, State.decDisc, State.setWaiters, State.setExpiry, State.setNotified, State.markFreed, State.eraseChild, State.clearParent, State.link, State.unlink, modNote_notes, upd_apply]; (repeat' split) <;> simp_all
+  simp only [State.acquire, State.release, State.incDisc, State.decDisc, State.setWaiters, State.setAdopted, State.setExpiry, State.setNotified, State.markFreed, State.eraseChild, State.clearParent, State.link, State.unlink, modNote_notes, upd_apply]; (repeat' split) <;> simp_all
 @[simp] theorem acquire_f_children (s : State) (k : NoteId) (t : Tid) (j : NoteId) :
     ((s.acquire k t).notes j).children = (s.notes j).children := by
-  simp only [State.acquire, State.release, State.incDisc, State.decDisc, State.setWaiters, State.setExpiry, State.setNotified, State.markFreed, State.eraseChild, State.clearParent, State.link, State.unlink, modNote_notes, upd_apply]; (repeat' split) <;> simp_all
+  simp only [State.acquire, State.release, State.incDisc, State.decDisc, State.setWaiters, State.setAdopted, State.setExpiry, State.setNotified, State.markFreed, State.eraseChild, State.clearParent, State.link, State.unlink, modNote_notes, upd_apply]; (repeat' split) <;> simp_all
 @[simp] theorem acquire_f_notified (s : State) (k : NoteId) (t : Tid) (j : NoteId) :
     ((s.acquire k t).notes j).notified = (s.notes j).notified := by
-  simp only [State.acquire, State.release, State.incDisc, State.decDisc, State.setWaiters, State.setExpiry, State.setNotified, State.markFreed, State.eraseChild, State.clearParent, State.link, State.unlink, modNote_notes, upd_apply]; (repeat' split) <;> simp_all
+  simp only [State.acquire, State.release, State.incDisc, State.decDisc, State.setWaiters, State.setAdopted, State.setExpiry, State.setNotified, State.markFreed, State.eraseChild, State.clearParent, State.link, State.unlink, modNote_notes, upd_apply]; (repeat' split) <;> simp_all
 @[simp] theorem acquire_f_expiry (s : State) (k : NoteId) (t : Tid) (j : NoteId) :
     ((s.acquire k t).notes j).expiry = (s.notes j).expiry := by
-  simp only [State.acquire, State.release, State.incDisc, State.decDisc, State.setWaiters, State.setExpiry, State.setNotified, State.markFreed, State.eraseChild, State.clearParent, State.link, State.unlink, modNote_notes, upd_apply]; (repeat' split) <;> simp_all
+  simp only [State.acquire, State.release, State.incDisc, State.decDisc, State.setWaiters, State.setAdopted, State.setExpiry, State.setNotified, State.markFreed, State.eraseChild, State.clearParent, State.link, State.unlink, modNote_notes, upd_apply]; (repeat' split) <;> simp_all
 @[simp] theorem acquire_f_disconnecting (s : State) (k : NoteId) (t : Tid) (j : NoteId) :
     ((s.acquire k t).notes j).disconnecting = (s.notes j).disconnecting := by
-  simp only [State.acquire, State.release, State.incDisc, State.decDisc, State.setWaiters, State.setExpiry, State.setNotified, State.markFreed, State.eraseChild, State.clearParent, State.link, State.unlink, modNote_notes, upd_apply]; (repeat' split) <;> simp_all
+  simp only [State.acquire, State.release, State.incDisc, State.decDisc, State.setWaiters, State.setAdopted, State.setExpiry, State.setNotified, State.markFreed, State.eraseChild, State.clearParent, State.link, State.unlink, modNote_notes, upd_apply]; (repeat' split) <;> simp_all
 @[simp] theorem acquire_f_waiters (s : State) (k : NoteId) (t : Tid) (j : NoteId) :
     ((s.acquire k t).notes j).waiters = (s.notes j).waiters := by
-  simp only [State.acquire, State.release, State.incDisc, State.decDisc, State.setWaiters, State.setExpiry, State.setNotified, State.markFreed, State.eraseChild, State.clearParent, State.link, State.unlink, modNote_notes, upd_apply]; (repeat' split) <;> simp_all
+  simp only [State.acquire, State.release, State.incDisc, State.decDisc, State.setWaiters, State.setAdopted, State.setExpiry, State.setNotified, State.markFreed, State.eraseChild, State.clearParent, State.link, State.unlink, modNote_notes, upd_apply]; (repeat' split) <;> simp_all
 @[simp] theorem acquire_f_lockHolder (s : State) (k : NoteId) (t : Tid) (j : NoteId) :
     ((s.acquire k t).notes j).lockHolder = if j = k then some t else (s.notes j).lockHolder := by
-  simp only [State.acquire, State.release, State.incDisc, State.decDisc, State.setWaiters, State.setExpiry, State.setNotified, State.markFreed, State.eraseChild, State.clearParent, State.link, State.unlink, modNote_notes, upd_apply]; (repeat' split) <;> simp_all
+  simp only [State.acquire, State.release, State.incDisc, State.decDisc, State.setWaiters, State.setAdopted, State.setExpiry, State.setNotified, State.markFreed, State.eraseChild, State.clearParent, State.link, State.unlink, modNote_notes, upd_apply]; (repeat' split) <;> simp_all
 @[simp] theorem acquire_f_allocated (s : State) (k : NoteId) (t : Tid) (j : NoteId) :
     ((s.acquire k t).notes j).allocated = (s.notes j).allocated := by
-  simp only [State.acquire, State.release, State.incDisc, State.decDisc, State.setWaiters, State.setExpiry, State.setNotified, State.markFreed, State.eraseChild, State.clearParent, State.link, State.unlink, modNote_notes, upd_apply]; (repeat' split) <;> simp_all
+  simp only [State.acquire, State.release, State.incDisc, State.decDisc, State.setWaiters, State.setAdopted, State.setExpiry, State.setNotified, State.markFreed, State.eraseChild, State.clearParent, State.link, State.unlink, modNote_notes, upd_apply]; (repeat' split) <;> simp_all
 @[simp] theorem acquire_f_freed (s : State) (k : NoteId) (t : Tid) (j : NoteId) :
     ((s.acquire k t).notes j).freed = (s.notes j).freed := by
-  simp only [State.acquire, State.release, State.incDisc, State.decDisc, State.setWaiters, State.setExpiry, State.setNotified, State.markFreed, State.eraseChild, State.clearParent, State.link, State.unlink, modNote_notes, upd_apply]; (repeat' split) <;> simp_all
+  simp only [State.acquire, State.release, State.incDisc, State.decDisc, State.setWaiters, State.setAdopted, State.setExpiry, State.setNotified, State.markFreed, State.eraseChild, State.clearParent, State.link, State.unlink, modNote_notes, upd_apply]; (repeat' split) <;> simp_all
+@[simp] theorem acquire_f_adopted (s : State) (k : NoteId) (t : Tid) (j : NoteId) :
+    ((s.acquire k t).notes j).adopted = (s.notes j).adopted := by
+  simp only [State.acquire, State.release, State.incDisc, State.decDisc, State.setWaiters, State.setAdopted, State.setExpiry, State.setNotified, State.markFreed, State.eraseChild, State.clearParent, State.link, State.unlink, modNote_notes, upd_apply]; (repeat' split) <;> simp_all
 @[simp] theorem release_recs (s : State) (k : NoteId) : (s.release k).recs = s.recs := rfl
 @[simp] theorem release_now (s : State) (k : NoteId) : (s.release k).now = s.now := rfl
 @[simp] theorem release_pc (s : State) (k : NoteId) : (s.release k).pc = s.pc := rfl
@@ -338,31 +341,34 @@ theorem upd_ne {β : Type} (f : Nat → β) {a x : Nat} (b : β) (h : x ≠ a) :
 @[simp] theorem release_observed (s : State) (k : NoteId) : (s.release k).observed = s.observed := rfl
 @[simp] theorem release_f_parent (s : State) (k : NoteId) (j : NoteId) :
     ((s.release k).notes j).parent = (s.notes j).parent := by
-  simp only [State.acquire, State.release, State.incDisc, State.decDisc, State.setWaiters, State.setExpiry, State.setNotified, State.markFreed, State.eraseChild, State.clearParent, State.link, State.unlink, modNote_notes, upd_apply]; (repeat' split) <;> simp_all
+  simp only [State.acquire, State.release, State.incDisc, State.decDisc, State.setWaiters, State.setAdopted, State.setExpiry, State.setNotified, State.markFreed, State.eraseChild, State.clearParent, State.link, State.unlink, modNote_notes, upd_apply]; (repeat' split) <;> simp_all
 @[simp] theorem release_f_children (s : State) (k : NoteId) (j : NoteId) :
     ((s.release k).notes j).children = (s.notes j).children := by
-  simp only [State.acquire, State.release, State.incDisc, State.decDisc, State.setWaiters, State.setExpiry, State.setNotified, State.markFreed, State.eraseChild, State.clearParent, State.link, State.unlink, modNote_notes, upd_apply]; (repeat' split) <;> simp_all
+  simp only [State.acquire, State.release, State.incDisc, State.decDisc, State.setWaiters, State.setAdopted, State.setExpiry, State.setNotified, State.markFreed, State.eraseChild, State.clearParent, State.link, State.unlink, modNote_notes, upd_apply]; (repeat' split) <;> simp_all
 @[simp] theorem release_f_notified (s : State) (k : NoteId) (j : NoteId) :
     ((s.release k).notes j).notified = (s.notes j).notified := by
-  simp only [State.acquire, State.release, State.incDisc, State.decDisc, State.setWaiters, State.setExpiry, State.setNotified, State.markFreed, State.eraseChild, State.clearParent, State.link, State.unlink, modNote_notes, upd_apply]; (repeat' split) <;> simp_all
+  simp only [State.acquire, State.release, State.incDisc, State.decDisc, State.setWaiters, State.setAdopted, State.setExpiry, State.setNotified, State.markFreed, State.eraseChild, State.clearParent, State.link, State.unlink, modNote_notes, upd_apply]; (repeat' split) <;> simp_all
 @[simp] theorem release_f_expiry (s : State) (k : NoteId) (j : NoteId) :
     ((s.release k).notes j).expiry = (s.notes j).expiry := by
-  simp only [State.acquire, State.release, State.incDisc, State.decDisc, State.setWaiters, State.setExpiry, State.setNotified, State.markFreed, State.eraseChild, State.clearParent, State.link, State.unlink, modNote_notes, upd_apply]; (repeat' split) <;> simp_all
+  simp only [State.acquire, State.release, State.incDisc, State.decDisc, State.setWaiters, State.setAdopted, State.setExpiry, State.setNotified, State.markFreed, State.eraseChild, State.clearParent, State.link, State.unlink, modNote_notes, upd_apply]; (repeat' split) <;> simp_all
 @[simp] theorem release_f_disconnecting (s : State) (k : NoteId) (j : NoteId) :
     ((s.release k).notes j).disconnecting = (s.notes j).disconnecting := by
-  simp only [State.acquire, State.release, State.incDisc, State.decDisc, State.setWaiters, State.setExpiry, State.setNotified, State.markFreed, State.eraseChild, State.clearParent, State.link, State.unlink, modNote_notes, upd_apply]; (repeat' split) <;> simp_all
+  simp only [State.acquire, State.release, State.incDisc, State.decDisc, State.setWaiters, State.setAdopted, State.setExpiry, State.setNotified, State.markFreed, State.eraseChild, State.clearParent, State.link, State.unlink, modNote_notes, upd_apply]; (repeat' split) <;> simp_all
 @[simp] theorem release_f_waiters (s : State) (k : NoteId) (j : NoteId) :
     ((s.release k).notes j).waiters = (s.notes j).waiters := by
-  simp only [State.acquire, State.release, State.incDisc, State.decDisc, State.setWaiters, State.setExpiry, State.setNotified, State.markFreed, State.eraseChild, State.clearParent, State.link, State.unlink, modNote_notes, upd_apply]; (repeat' split) <;> simp_all
+  simp only [State.acquire, State.release, State.incDisc, State.decDisc, State.setWaiters, State.setAdopted, State.setExpiry, State.setNotified, State.markFreed, State.eraseChild, State.clearParent, State.link, State.unlink, modNote_notes, upd_apply]; (repeat' split) <;> simp_all
 @[simp] theorem release_f_lockHolder (s : State) (k : NoteId) (j : NoteId) :
     ((s.release k).notes j).lockHolder = if j = k then none else (s.notes j).lockHolder := by
-  simp only [State.acquire, State.release, State.incDisc, State.decDisc, State.setWaiters, State.setExpiry, State.setNotified, State.markFreed, State.eraseChild, State.clearParent, State.link, State.unlink, modNote_notes, upd_apply]; (repeat' split) <;> simp_all
+  simp only [State.acquire, State.release, State.incDisc, State.decDisc, State.setWaiters, State.setAdopted, State.setExpiry, State.setNotified, State.markFreed, State.eraseChild, State.clearParent, State.link, State.unlink, modNote_notes, upd_apply]; (repeat' split) <;> simp_all
 @[simp] theorem release_f_allocated (s : State) (k : NoteId) (j : NoteId) :
     ((s.release k).notes j).allocated = (s.notes j).allocated := by
-  simp only [State.acquire, State.release, State.incDisc, State.decDisc, State.setWaiters, State.setExpiry, State.setNotified, State.markFreed, State.eraseChild, State.clearParent, State.link, State.unlink, modNote_notes, upd_apply]; (repeat' split) <;> simp_all
+  simp only [State.acquire, State.release, State.incDisc, State.decDisc, State.setWaiters, State.setAdopted, State.setExpiry, State.setNotified, State.markFreed, State.eraseChild, State.clearParent, State.link, State.unlink, modNote_notes, upd_apply]; (repeat' split) <;> simp_all
 @[simp] theorem release_f_freed (s : State) (k : NoteId) (j : NoteId) :
     ((s.release k).notes j).freed = (s.notes j).freed := by
-  simp only [State.acquire, State.release, State.incDisc, State.decDisc, State.setWaiters, State.setExpiry, State.setNotified, State.markFreed, State.eraseChild, State.clearParent, State.link, State.unlink, modNote_notes, upd_apply]; (repeat' split) <;> simp_all
+  simp only [State.acquire, State.release, State.incDisc, State.decDisc, State.setWaiters, State.setAdopted, State.setExpiry, State.setNotified, State.markFreed, State.eraseChild, State.clearParent, State.link, State.unlink, modNote_notes, upd_apply]; (repeat' split) <;> simp_all
+@[simp] theorem release_f_adopted (s : State) (k : NoteId) (j : NoteId) :
+    ((s.release k).notes j).adopted = (s.notes j).adopted := by
+  simp only [State.acquire, State.release, State.incDisc, State.decDisc, State.setWaiters, State.setAdopted, State.setExpiry, State.setNotified, State.markFreed, State.eraseChild, State.clearParent, State.link, State.unlink, modNote_notes, upd_apply]; (repeat' split) <;> simp_all
 @[simp] theorem incDisc_recs (s : State) (k : NoteId) : (s.incDisc k).recs = s.recs := rfl
 @[simp] theorem incDisc_now (s : State) (k : NoteId) : (s.incDisc k).now = s.now := rfl
 @[simp] theorem incDisc_pc (s : State) (k : NoteId) : (s.incDisc k).pc = s.pc := rfl
@@ -379,31 +385,34 @@ theorem upd_ne {β : Type} (f : Nat → β) {a x : Nat} (b : β) (h : x ≠ a) :
 @[simp] theorem incDisc_observed (s : State) (k : NoteId) : (s.incDisc k).observed = s.observed := rfl
 @[simp] theorem incDisc_f_parent (s : State) (k : NoteId) (j : NoteId) :
     ((s.incDisc k).notes j).parent = (s.notes j).parent := by
-  simp only [State.acquire, State.release, State.incDisc, State.decDisc, State.setWaiters, State.setExpiry, State.setNotified, State.markFreed, State.eraseChild, State.clearParent, State.link, State.unlink, modNote_notes, upd_apply]; (repeat' split) <;> simp_all
+  simp only [State.acquire, State.release, State.incDisc, State.decDisc, State.setWaiters, State.setAdopted, State.setExpiry, State.setNotified, State.markFreed, State.eraseChild, State.clearParent, State.link, State.unlink, modNote_notes, upd_apply]; (repeat' split) <;> simp_all
 @[simp] theorem incDisc_f_children (s : State) (k : NoteId) (j : NoteId) :
     ((s.incDisc k).notes j).children = (s.notes j).children := by
-  simp only [State.acquire, State.release, State.incDisc, State.decDisc, State.setWaiters, State.setExpiry, State.setNotified, State.markFreed, State.eraseChild, State.clearParent, State.link, State.unlink, modNote_notes, upd_apply]; (repeat' split) <;> simp_all
+  simp only [State.acquire, State.release, State.incDisc, State.decDisc, State.setWaiters, State.setAdopted, State.setExpiry, State.setNotified, State.markFreed, State.eraseChild, State.clearParent, State.link, State.unlink, modNote_notes, upd_apply]; (repeat' split) <;> simp_all
 @[simp] theorem incDisc_f_notified (s : State) (k : NoteId) (j : NoteId) :
     ((s.incDisc k).notes j).notified = (s.notes j).notified := by
-  simp only [State.acquire, State.release, State.incDisc, State.decDisc, State.setWaiters, State.setExpiry, State.setNotified, State.markFreed, State.eraseChild, State.clearParent, State.link, State.unlink, modNote_notes, upd_apply]; (repeat' split) <;> simp_all
+  simp only [State.acquire, State.release, State.incDisc, State.decDisc, State.setWaiters, State.setAdopted, State.setExpiry, State.setNotified, State.markFreed, State.eraseChild, State.clearParent, State.link, State.unlink, modNote_notes, upd_apply]; (repeat' split) <;> simp_all
 @[simp] theorem incDisc_f_expiry (s : State) (k : NoteId) (j : NoteId) :
     ((s.incDisc k).notes j).expiry = (s.notes j).expiry := by
-  simp only [State.acquire, State.release, State.incDisc, State.decDisc, State.setWaiters, State.setExpiry, State.setNotified, State.markFreed, State.eraseChild, State.clearParent, State.link, State.unlink, modNote_notes, upd_apply]; (repeat' split) <;> simp_all
+  simp only [State.acquire, State.release, State.incDisc, State.decDisc, State.setWaiters, State.setAdopted, State.setExpiry, State.setNotified, State.markFreed, State.eraseChild, State.clearParent, State.link, State.unlink, modNote_notes, upd_apply]; (repeat' split) <;> simp_all
 @[simp] theorem incDisc_f_disconnecting (s : State) (k : NoteId) (j : NoteId) :
     ((s.incDisc k).notes j).disconnecting = if j = k then (s.notes j).disconnecting + 1 else (s.notes j).disconnecting := by
-  simp only [State.acquire, State.release, State.incDisc, State.decDisc, State.setWaiters, State.setExpiry, State.setNotified, State.markFreed, State.eraseChild, State.clearParent, State.link, State.unlink, modNote_notes, upd_apply]; (repeat' split) <;> simp_all
+  simp only [State.acquire, State.release, State.incDisc, State.decDisc, State.setWaiters, State.setAdopted, State.setExpiry, State.setNotified, State.markFreed, State.eraseChild, State.clearParent, State.link, State.unlink, modNote_notes, upd_apply]; (repeat' split) <;> simp_all
 @[simp] theorem incDisc_f_waiters (s : State) (k : NoteId) (j : NoteId) :
     ((s.incDisc k).notes j).waiters = (s.notes j).waiters := by
-  simp only [State.acquire, State.release, State.incDisc, State.decDisc, State.setWaiters, State.setExpiry, State.setNotified, State.markFreed, State.eraseChild, State.clearParent, State.link, State.unlink, modNote_notes, upd_apply]; (repeat' split) <;> simp_all
+  simp only [State.acquire, State.release, State.incDisc, State.decDisc, State.setWaiters, State.setAdopted, State.setExpiry, State.setNotified, State.markFreed, State.eraseChild, State.clearParent, State.link, State.unlink, modNote_notes, upd_apply]; (repeat' split) <;> simp_all
 @[simp] theorem incDisc_f_lockHolder (s : State) (k : NoteId) (j : NoteId) :
     ((s.incDisc k).notes j).lockHolder = (s.notes j).lockHolder := by
-  simp only [State.acquire, State.release, State.incDisc, State.decDisc, State.setWaiters, State.setExpiry, State.setNotified, State.markFreed, State.eraseChild, State.clearParent, State.link, State.unlink, modNote_notes, upd_apply]; (repeat' split) <;> simp_all
+  simp only [State.acquire, State.release, State.incDisc, State.decDisc, State.setWaiters, State.setAdopted, State.setExpiry, State.setNotified, State.markFreed, State.eraseChild, State.clearParent, State.link, State.unlink, modNote_notes, upd_apply]; (repeat' split) <;> simp_all
 @[simp] theorem incDisc_f_allocated (s : State) (k : NoteId) (j : NoteId) :
     ((s.incDisc k).notes j).allocated = (s.notes j).allocated := by
-  simp only [State.acquire, State.release, State.incDisc, State.decDisc, State.setWaiters, State.setExpiry, State.setNotified, State.markFreed, State.eraseChild, State.clearParent, State.link, State.unlink, modNote_notes, upd_apply]; (repeat' split) <;> simp_all
+  simp only [State.acquire, State.release, State.incDisc, State.decDisc, State.setWaiters, State.setAdopted, State.setExpiry, State.setNotified, State.markFreed, State.eraseChild, State.clearParent, State.link, State.unlink, modNote_notes, upd_apply]; (repeat' split) <;> simp_all
 @[simp] theorem incDisc_f_freed (s : State) (k : NoteId) (j : NoteId) :
     ((s.incDisc k).notes j).freed = (s.notes j).freed := by
-  simp only [State.acquire, State.release, State.incDisc, State.decDisc, State.setWaiters, State.setExpiry, State.setNotified, State.markFreed, State.eraseChild, State.clearParent, State.link, State.unlink, modNote_notes, upd_apply]; (repeat' split) <;> simp_all
+  simp only [State.acquire, State.release, State.incDisc, State.decDisc, State.setWaiters, State.setAdopted, State.setExpiry, State.setNotified, State.markFreed, State.eraseChild, State.clearParent, State.link, State.unlink, modNote_notes, upd_apply]; (repeat' split) <;> simp_all
+@[simp] theorem incDisc_f_adopted (s : State) (k : NoteId) (j : NoteId) :
+    ((s.incDisc k).notes j).adopted = (s.notes j).adopted := by
+  simp only [State.acquire, State.release, State.incDisc, State.decDisc, State.setWaiters, State.setAdopted, State.setExpiry, State.setNotified, State.markFreed, State.eraseChild, State.clearParent, State.link, State.unlink, modNote_notes, upd_apply]; (repeat' split) <;> simp_all
 @[simp] theorem decDisc_recs (s : State) (k : NoteId) : (s.decDisc k).recs = s.recs := rfl
 @[simp] theorem decDisc_now (s : State) (k : NoteId) : (s.decDisc k).now = s.now := rfl
 @[simp] theorem decDisc_pc (s : State) (k : NoteId) : (s.decDisc k).pc = s.pc := rfl
@@ -420,31 +429,34 @@ theorem upd_ne {β : Type} (f : Nat → β) {a x : Nat} (b : β) (h : x ≠ a) :
 @[simp] theorem decDisc_observed (s : State) (k : NoteId) : (s.decDisc k).observed = s.observed := rfl
 @[simp] theorem decDisc_f_parent (s : State) (k : NoteId) (j : NoteId) :
     ((s.decDisc k).notes j).parent = (s.notes j).parent := by
-  simp only [State.acquire, State.release, State.incDisc, State.decDisc, State.setWaiters, State.setExpiry, State.setNotified, State.markFreed, State.eraseChild, State.clearParent, State.link, State.unlink, modNote_notes, upd_apply]; (repeat' split) <;> simp_all
+  simp only [State.acquire, State.release, State.incDisc, State.decDisc, State.setWaiters, State.setAdopted, State.setExpiry, State.setNotified, State.markFreed, State.eraseChild, State.clearParent, State.link, State.unlink, modNote_notes, upd_apply]; (repeat' split) <;> simp_all
 @[simp] theorem decDisc_f_children (s : State) (k : NoteId) (j : NoteId) :
     ((s.decDisc k).notes j).children = (s.notes j).children := by
-  simp only [State.acquire, State.release, State.incDisc, State.decDisc, State.setWaiters, State.setExpiry, State.setNotified, State.markFreed, State.eraseChild, State.clearParent, State.link, State.unlink, modNote_notes, upd_apply]; (repeat' split) <;> simp_all
+  simp only [State.acquire, State.release, State.incDisc, State.decDisc, State.setWaiters, State.setAdopted, State.setExpiry, State.setNotified, State.markFreed, State.eraseChild, State.clearParent, State.link, State.unlink, modNote_notes, upd_apply]; (repeat' split) <;> simp_all
 @[simp] theorem decDisc_f_notified (s : State) (k : NoteId) (j : NoteId) :
     ((s.decDisc k).notes j).notified = (s.notes j).notified := by
-  simp only [State.acquire, State.release, State.incDisc, State.decDisc, State.setWaiters, State.setExpiry, State.setNotified, State.markFreed, State.eraseChild, State.clearParent, State.link, State.unlink, modNote_notes, upd_apply]; (repeat' split) <;> simp_all
+  simp only [State.acquire, State.release, State.incDisc, State.decDisc, State.setWaiters, State.setAdopted, State.setExpiry, State.setNotified, State.markFreed, State.eraseChild, State.clearParent, State.link, State.unlink, modNote_notes, upd_apply]; (repeat' split) <;> simp_all
 @[simp] theorem decDisc_f_expiry (s : State) (k : NoteId) (j : NoteId) :
     ((s.decDisc k).notes j).expiry = (s.notes j).expiry := by
-  simp only [State.acquire, State.release, State.incDisc, State.decDisc, State.setWaiters, State.setExpiry, State.setNotified, State.markFreed, State.eraseChild, State.clearParent, State.link, State.unlink, modNote_notes, upd_apply]; (repeat' split) <;> simp_all
+  simp only [State.acquire, State.release, State.incDisc, State.decDisc, State.setWaiters, State.setAdopted, State.setExpiry, State.setNotified, State.markFreed, State.eraseChild, State.clearParent, State.link, State.unlink, modNote_notes, upd_apply]; (repeat' split) <;> simp_all
 @[simp] theorem decDisc_f_disconnecting (s : State) (k : NoteId) (j : NoteId) :
     ((s.decDisc k).notes j).disconnecting = if j = k then (s.notes j).disconnecting - 1 else (s.notes j).disconnecting := by
-  simp only [State.acquire, State.release, State.incDisc, State.decDisc, State.setWaiters, State.setExpiry, State.setNotified, State.markFreed, State.eraseChild, State.clearParent, State.link, State.unlink, modNote_notes, upd_apply]; (repeat' split) <;> simp_all
+  simp only [State.acquire, State.release, State.incDisc, State.decDisc, State.setWaiters, State.setAdopted, State.setExpiry, State.setNotified, State.markFreed, State.eraseChild, State.clearParent, State.link, State.unlink, modNote_notes, upd_apply]; (repeat' split) <;> simp_all
 @[simp] theorem decDisc_f_waiters (s : State) (k : NoteId) (j : NoteId) :
     ((s.decDisc k).notes j).waiters = (s.notes j).waiters := by
-  simp only [State.acquire, State.release, State.incDisc, State.decDisc, State.setWaiters, State.setExpiry, State.setNotified, State.markFreed, State.eraseChild, State.clearParent, State.link, State.unlink, modNote_notes, upd_apply]; (repeat' split) <;> simp_all
+  simp only [State.acquire, State.release, State.incDisc, State.decDisc, State.setWaiters, State.setAdopted, State.setExpiry, State.setNotified, State.markFreed, State.eraseChild, State.clearParent, State.link, State.unlink, modNote_notes, upd_apply]; (repeat' split) <;> simp_all
 @[simp] theorem decDisc_f_lockHolder (s : State) (k : NoteId) (j : NoteId) :
     ((s.decDisc k).notes j).lockHolder = (s.notes j).lockHolder := by
-  simp only [State.acquire, State.release, State.incDisc, State.decDisc, State.setWaiters, State.setExpiry, State.setNotified, State.markFreed, State.eraseChild, State.clearParent, State.link, State.unlink, modNote_notes, upd_apply]; (repeat' split) <;> simp_all
+  simp only [State.acquire, State.release, State.incDisc, State.decDisc, State.setWaiters, State.setAdopted, State.setExpiry, State.setNotified, State.markFreed, State.eraseChild, State.clearParent, State.link, State.unlink, modNote_notes, upd_apply]; (repeat' split) <;> simp_all
 @[simp] theorem decDisc_f_allocated (s : State) (k : NoteId) (j : NoteId) :
     ((s.decDisc k).notes j).allocated = (s.notes j).allocated := by
-  simp only [State.acquire, State.release, State.incDisc, State.decDisc, State.setWaiters, State.setExpiry, State.setNotified, State.markFreed, State.eraseChild, State.clearParent, State.link, State.unlink, modNote_notes, upd_apply]; (repeat' split) <;> simp_all
+  simp only [State.acquire, State.release, State.incDisc, State.decDisc, State.setWaiters, State.setAdopted, State.setExpiry, State.setNotified, State.markFreed, State.eraseChild, State.clearParent, State.link, State.unlink, modNote_notes, upd_apply]; (repeat' split) <;> simp_all
 @[simp] theorem decDisc_f_freed (s : State) (k : NoteId) (j : NoteId) :
     ((s.decDisc k).notes j).freed = (s.notes j).freed := by
-  simp only [State.acquire, State.release, State.incDisc, State.decDisc, State.setWaiters, State.setExpiry, State.setNotified, State.markFreed, State.eraseChild, State.clearParent, State.link, State.unlink, modNote_notes, upd_apply]; (repeat' split) <;> simp_all
+  simp only [State.acquire, State.release, State.incDisc, State.decDisc, State.setWaiters, State.setAdopted, State.setExpiry, State.setNotified, State.markFreed, State.eraseChild, State.clearParent, State.link, State.unlink, modNote_notes, upd_apply]; (repeat' split) <;> simp_all
+@[simp] theorem decDisc_f_adopted (s : State) (k : NoteId) (j : NoteId) :
+    ((s.decDisc k).notes j).adopted = (s.notes j).adopted := by
+  simp only [State.acquire, State.release, State.incDisc, State.decDisc, State.setWaiters, State.setAdopted, State.setExpiry, State.setNotified, State.markFreed, State.eraseChild, State.clearParent, State.link, State.unlink, modNote_notes, upd_apply]; (repeat' split) <;> simp_all
 @[simp] theorem setWaiters_recs (s : State) (k : NoteId) (ws : List Rid) : (s.setWaiters k ws).recs = s.recs := rfl
 @[simp] theorem setWaiters_now (s : State) (k : NoteId) (ws : List Rid) : (s.setWaiters k ws).now = s.now := rfl
 @[simp] theorem setWaiters_pc (s : State) (k : NoteId) (ws : List Rid) : (s.setWaiters k ws).pc = s.pc := rfl
@@ -461,31 +473,78 @@ theorem upd_ne {β : Type} (f : Nat → β) {a x : Nat} (b : β) (h : x ≠ a) :
 @[simp] theorem setWaiters_observed (s : State) (k : NoteId) (ws : List Rid) : (s.setWaiters k ws).observed = s.observed := rfl
 @[simp] theorem setWaiters_f_parent (s : State) (k : NoteId) (ws : List Rid) (j : NoteId) :
     ((s.setWaiters k ws).notes j).parent = (s.notes j).parent := by
-  simp only [State.acquire, State.release, State.incDisc, State.decDisc, State.setWaiters, State.setExpiry, State.setNotified, State.markFreed, State.eraseChild, State.clearParent, State.link, State.unlink, modNote_notes, upd_apply]; (repeat' split) <;> simp_all
+  simp only [State.acquire, State.release, State.incDisc, State.decDisc, State.setWaiters, State.setAdopted, State.setExpiry, State.setNotified, State.markFreed, State.eraseChild, State.clearParent, State.link, State.unlink, modNote_notes, upd_apply]; (repeat' split) <;> simp_all
 @[simp] theorem setWaiters_f_children (s : State) (k : NoteId) (ws : List Rid) (j : NoteId) :
     ((s.setWaiters k ws).notes j).children = (s.notes j).children := by
-  simp only [State.acquire, State.release, State.incDisc, State.decDisc, State.setWaiters, State.setExpiry, State.setNotified, State.markFreed, State.eraseChild, State.clearParent, State.link, State.unlink, modNote_notes, upd_apply]; (repeat' split) <;> simp_all
+  simp only [State.acquire, State.release, State.incDisc, State.decDisc, State.setWaiters, State.setAdopted, State.setExpiry, State.setNotified, State.markFreed, State.eraseChild, State.clearParent, State.link, State.unlink, modNote_notes, upd_apply]; (repeat' split) <;> simp_all
 @[simp] theorem setWaiters_f_notified (s : State) (k : NoteId) (ws : List Rid) (j : NoteId) :
     ((s.setWaiters k ws).notes j).notified = (s.notes j).notified := by
-  simp only [State.acquire, State.release, State.incDisc, State.decDisc, State.setWaiters, State.setExpiry, State.setNotified, State.markFreed, State.eraseChild, State.clearParent, State.link, State.unlink, modNote_notes, upd_apply]; (repeat' split) <;> simp_all
+  simp only [State.acquire, State.release, State.incDisc, State.decDisc, State.setWaiters, State.setAdopted, State.setExpiry, State.setNotified, State.markFreed, State.eraseChild, State.clearParent, State.link, State.unlink, modNote_notes, upd_apply]; (repeat' split) <;> simp_all
 @[simp] theorem setWaiters_f_expiry (s : State) (k : NoteId) (ws : List Rid) (j : NoteId) :
     ((s.setWaiters k ws).notes j).expiry = (s.notes j).expiry := by
-  simp only [State.acquire, State.release, State.incDisc, State.decDisc, State.setWaiters, State.setExpiry, State.setNotified, State.markFreed, State.eraseChild, State.clearParent, State.link, State.unlink, modNote_notes, upd_apply]; (repeat' split) <;> simp_all
+  simp only [State.acquire, State.release, State.incDisc, State.decDisc, State.setWaiters, State.setAdopted, State.setExpiry, State.setNotified, State.markFreed, State.eraseChild, State.clearParent, State.link, State.unlink, modNote_notes, upd_apply]; (repeat' split) <;> simp_all
 @[simp] theorem setWaiters_f_disconnecting (s : State) (k : NoteId) (ws : List Rid) (j : NoteId) :
     ((s.setWaiters k ws).notes j).disconnecting = (s.notes j).disconnecting := by
-  simp only [State.acquire, State.release, State.incDisc, State.decDisc, State.setWaiters, State.setExpiry, State.setNotified, State.markFreed, State.eraseChild, State.clearParent, State.link, State.unlink, modNote_notes, upd_apply]; (repeat' split) <;> simp_all
+  simp only [State.acquire, State.release, State.incDisc, State.decDisc, State.setWaiters, State.setAdopted, State.setExpiry, State.setNotified, State.markFreed, State.eraseChild, State.clearParent, State.link, State.unlink, modNote_notes, upd_apply]; (repeat' split) <;> simp_all
 @[simp] theorem setWaiters_f_waiters (s : State) (k : NoteId) (ws : List Rid) (j : NoteId) :
     ((s.setWaiters k ws).notes j).waiters = if j = k then ws else (s.notes j).waiters := by
-  simp only [State.acquire, State.release, State.incDisc, State.decDisc, State.setWaiters, State.setExpiry, State.setNotified, State.markFreed, State.eraseChild, State.clearParent, State.link, State.unlink, modNote_notes, upd_apply]; (repeat' split) <;> simp_all
+  simp only [State.acquire, State.release, State.incDisc, State.decDisc, State.setWaiters, State.setAdopted, State.setExpiry, State.setNotified, State.markFreed, State.eraseChild, State.clearParent, State.link, State.unlink, modNote_notes, upd_apply]; (repeat' split) <;> simp_all
 @[simp] theorem setWaiters_f_lockHolder (s : State) (k : NoteId) (ws : List Rid) (j : NoteId) :
     ((s.setWaiters k ws).notes j).lockHolder = (s.notes j).lockHolder := by
-  simp only [State.acquire, State.release, State.incDisc, State.decDisc, State.setWaiters, State.setExpiry, State.setNotified, State.markFreed, State.eraseChild, State.clearParent, State.link, State.unlink, modNote_notes, upd_apply]; (repeat' split) <;> simp_all
+  simp only [State.acquire, State.release, State.incDisc, State.decDisc, State.setWaiters, State.setAdopted, State.setExpiry, State.setNotified, State.markFreed, State.eraseChild, State.clearParent, State.link, State.unlink, modNote_notes, upd_apply]; (repeat' split) <;> simp_all
 @[simp] theorem setWaiters_f_allocated (s : State) (k : NoteId) (ws : List Rid) (j : NoteId) :
     ((s.setWaiters k ws).notes j).allocated = (s.notes j).allocated := by
-  simp only [State.acquire, State.release, State.incDisc, State.decDisc, State.setWaiters, State.setExpiry, State.setNotified, State.markFreed, State.eraseChild, State.clearParent, State.link, State.unlink, modNote_notes, upd_apply]; (repeat' split) <;> simp_all
+  simp only [State.acquire, State.release, State.incDisc, State.decDisc, State.setWaiters, State.setAdopted, State.setExpiry, State.setNotified, State.markFreed, State.eraseChild, State.clearParent, State.link, State.unlink, modNote_notes, upd_apply]; (repeat' split) <;> simp_all
 @[simp] theorem setWaiters_f_freed (s : State) (k : NoteId) (ws : List Rid) (j : NoteId) :
     ((s.setWaiters k ws).notes j).freed = (s.notes j).freed := by
-  simp only [State.acquire, State.release, State.incDisc, State.decDisc, State.setWaiters, State.setExpiry, State.setNotified, State.markFreed, State.eraseChild, State.clearParent, State.link, State.unlink, modNote_notes, upd_apply]; (repeat' split) <;> simp_all
+  simp only [State.acquire, State.release, State.incDisc, State.decDisc, State.setWaiters, State.setAdopted, State.setExpiry, State.setNotified, State.markFreed, State.eraseChild, State.clearParent, State.link, State.unlink, modNote_notes, upd_apply]; (repeat' split) <;> simp_all
+@[simp] theorem setWaiters_f_adopted (s : State) (k : NoteId) (ws : List Rid) (j : NoteId) :
+    ((s.setWaiters k ws).notes j).adopted = (s.notes j).adopted := by
+  simp only [State.acquire, State.release, State.incDisc, State.decDisc, State.setWaiters, State.setAdopted, State.setExpiry, State.setNotified, State.markFreed, State.eraseChild, State.clearParent, State.link, State.unlink, modNote_notes, upd_apply]; (repeat' split) <;> simp_all
+@[simp] theorem setAdopted_recs (s : State) (k : NoteId) (b : Bool) : (s.setAdopted k b).recs = s.recs := rfl
+@[simp] theorem setAdopted_now (s : State) (k : NoteId) (b : Bool) : (s.setAdopted k b).now = s.now := rfl
+@[simp] theorem setAdopted_pc (s : State) (k : NoteId) (b : Bool) : (s.setAdopted k b).pc = s.pc := rfl
+@[simp] theorem setAdopted_users (s : State) (k : NoteId) (b : Bool) : (s.setAdopted k b).users = s.users := rfl
+@[simp] theorem setAdopted_freeing (s : State) (k : NoteId) (b : Bool) : (s.setAdopted k b).freeing = s.freeing := rfl
+@[simp] theorem setAdopted_published (s : State) (k : NoteId) (b : Bool) : (s.setAdopted k b).published = s.published := rfl
+@[simp] theorem setAdopted_notifyCalled (s : State) (k : NoteId) (b : Bool) : (s.setAdopted k b).notifyCalled = s.notifyCalled := rfl
+@[simp] theorem setAdopted_ownDl (s : State) (k : NoteId) (b : Bool) : (s.setAdopted k b).ownDl = s.ownDl := rfl
+@[simp] theorem setAdopted_cparent (s : State) (k : NoteId) (b : Bool) : (s.setAdopted k b).cparent = s.cparent := rfl
+@[simp] theorem setAdopted_ancEver (s : State) (k : NoteId) (b : Bool) : (s.setAdopted k b).ancEver = s.ancEver := rfl
+@[simp] theorem setAdopted_pathMin (s : State) (k : NoteId) (b : Bool) : (s.setAdopted k b).pathMin = s.pathMin := rfl
+@[simp] theorem setAdopted_bornNotified (s : State) (k : NoteId) (b : Bool) : (s.setAdopted k b).bornNotified = s.bornNotified := rfl
+@[simp] theorem setAdopted_after (s : State) (k : NoteId) (b : Bool) : (s.setAdopted k b).after = s.after := rfl
+@[simp] theorem setAdopted_observed (s : State) (k : NoteId) (b : Bool) : (s.setAdopted k b).observed = s.observed := rfl
+@[simp] theorem setAdopted_f_parent (s : State) (k : NoteId) (b : Bool) (j : NoteId) :
+    ((s.setAdopted k b).notes j).parent = (s.notes j).parent := by
+  simp only [State.acquire, State.release, State.incDisc, State.decDisc, State.setAdopted, State.setAdopted, State.setExpiry, State.setNotified, State.markFreed, State.eraseChild, State.clearParent, State.link, State.unlink, modNote_notes, upd_apply]; (repeat' split) <;> simp_all
+@[simp] theorem setAdopted_f_children (s : State) (k : NoteId) (b : Bool) (j : NoteId) :
+    ((s.setAdopted k b).notes j).children = (s.notes j).children := by
+  simp only [State.acquire, State.release, State.incDisc, State.decDisc, State.setAdopted, State.setAdopted, State.setExpiry, State.setNotified, State.markFreed, State.eraseChild, State.clearParent, State.link, State.unlink, modNote_notes, upd_apply]; (repeat' split) <;> simp_all
+@[simp] theorem setAdopted_f_notified (s : State) (k : NoteId) (b : Bool) (j : NoteId) :
+    ((s.setAdopted k b).notes j).notified = (s.notes j).notified := by
+  simp only [State.acquire, State.release, State.incDisc, State.decDisc, State.setAdopted, State.setAdopted, State.setExpiry, State.setNotified, State.markFreed, State.eraseChild, State.clearParent, State.link, State.unlink, modNote_notes, upd_apply]; (repeat' split) <;> simp_all
+@[simp] theorem setAdopted_f_expiry (s : State) (k : NoteId) (b : Bool) (j : NoteId) :
+    ((s.setAdopted k b).notes j).expiry = (s.notes j).expiry := by
+  simp only [State.acquire, State.release, State.incDisc, State.decDisc, State.setAdopted, State.setAdopted, State.setExpiry, State.setNotified, State.markFreed, State.eraseChild, State.clearParent, State.link, State.unlink, modNote_notes, upd_apply]; (repeat' split) <;> simp_all
+@[simp] theorem setAdopted_f_disconnecting (s : State) (k : NoteId) (b : Bool) (j : NoteId) :
+    ((s.setAdopted k b).notes j).disconnecting = (s.notes j).disconnecting := by
+  simp only [State.acquire, State.release, State.incDisc, State.decDisc, State.setAdopted, State.setAdopted, State.setExpiry, State.setNotified, State.markFreed, State.eraseChild, State.clearParent, State.link, State.unlink, modNote_notes, upd_apply]; (repeat' split) <;> simp_all
+@[simp] theorem setAdopted_f_waiters (s : State) (k : NoteId) (b : Bool) (j : NoteId) :
+    ((s.setAdopted k b).notes j).waiters = (s.notes j).waiters := by
+  simp only [State.acquire, State.release, State.incDisc, State.decDisc, State.setAdopted, State.setAdopted, State.setExpiry, State.setNotified, State.markFreed, State.eraseChild, State.clearParent, State.link, State.unlink, modNote_notes, upd_apply]; (repeat' split) <;> simp_all
+@[simp] theorem setAdopted_f_lockHolder (s : State) (k : NoteId) (b : Bool) (j : NoteId) :
+    ((s.setAdopted k b).notes j).lockHolder = (s.notes j).lockHolder := by
+  simp only [State.acquire, State.release, State.incDisc, State.decDisc, State.setAdopted, State.setAdopted, State.setExpiry, State.setNotified, State.markFreed, State.eraseChild, State.clearParent, State.link, State.unlink, modNote_notes, upd_apply]; (repeat' split) <;> simp_all
+@[simp] theorem setAdopted_f_allocated (s : State) (k : NoteId) (b : Bool) (j : NoteId) :
+    ((s.setAdopted k b).notes j).allocated = (s.notes j).allocated := by
+  simp only [State.acquire, State.release, State.incDisc, State.decDisc, State.setAdopted, State.setAdopted, State.setExpiry, State.setNotified, State.markFreed, State.eraseChild, State.clearParent, State.link, State.unlink, modNote_notes, upd_apply]; (repeat' split) <;> simp_all
+@[simp] theorem setAdopted_f_freed (s : State) (k : NoteId) (b : Bool) (j : NoteId) :
+    ((s.setAdopted k b).notes j).freed = (s.notes j).freed := by
+  simp only [State.acquire, State.release, State.incDisc, State.decDisc, State.setAdopted, State.setAdopted, State.setExpiry, State.setNotified, State.markFreed, State.eraseChild, State.clearParent, State.link, State.unlink, modNote_notes, upd_apply]; (repeat' split) <;> simp_all
+@[simp] theorem setAdopted_f_adopted (s : State) (k : NoteId) (b : Bool) (j : NoteId) :
+    ((s.setAdopted k b).notes j).adopted = if j = k then b else (s.notes j).adopted := by
+  simp only [State.acquire, State.release, State.incDisc, State.decDisc, State.setAdopted, State.setAdopted, State.setExpiry, State.setNotified, State.markFreed, State.eraseChild, State.clearParent, State.link, State.unlink, modNote_notes, upd_apply]; (repeat' split) <;> simp_all
 @[simp] theorem setExpiry_recs (s : State) (k : NoteId) (d : Dl) : (s.setExpiry k d).recs = s.recs := rfl
 @[simp] theorem setExpiry_now (s : State) (k : NoteId) (d : Dl) : (s.setExpiry k d).now = s.now := rfl
 @[simp] theorem setExpiry_pc (s : State) (k : NoteId) (d : Dl) : (s.setExpiry k d).pc = s.pc := rfl
@@ -502,31 +561,34 @@ theorem upd_ne {β : Type} (f : Nat → β) {a x : Nat} (b : β) (h : x ≠ a) :
 @[simp] theorem setExpiry_observed (s : State) (k : NoteId) (d : Dl) : (s.setExpiry k d).observed = s.observed := rfl
 @[simp] theorem setExpiry_f_parent (s : State) (k : NoteId) (d : Dl) (j : NoteId) :
     ((s.setExpiry k d).notes j).parent = (s.notes j).parent := by
-  simp only [State.acquire, State.release, State.incDisc, State.decDisc, State.setWaiters, State.setExpiry, State.setNotified, State.markFreed, State.eraseChild, State.clearParent, State.link, State.unlink, modNote_notes, upd_apply]; (repeat' split) <;> simp_all
+  simp only [State.acquire, State.release, State.incDisc, State.decDisc, State.setWaiters, State.setAdopted, State.setExpiry, State.setNotified, State.markFreed, State.eraseChild, State.clearParent, State.link, State.unlink, modNote_notes, upd_apply]; (repeat' split) <;> simp_all
 @[simp] theorem setExpiry_f_children (s : State) (k : NoteId) (d : Dl) (j : NoteId) :
     ((s.setExpiry k d).notes j).children = (s.notes j).children := by
-  simp only [State.acquire, State.release, State.incDisc, State.decDisc, State.setWaiters, State.setExpiry, State.setNotified, State.markFreed, State.eraseChild, State.clearParent, State.link, State.unlink, modNote_notes, upd_apply]; (repeat' split) <;> simp_all
+  simp only [State.acquire, State.release, State.incDisc, State.decDisc, State.setWaiters, State.setAdopted, State.setExpiry, State.setNotified, State.markFreed, State.eraseChild, State.clearParent, State.link, State.unlink, modNote_notes, upd_apply]; (repeat' split) <;> simp_all
 @[simp] theorem setExpiry_f_notified (s : State) (k : NoteId) (d : Dl) (j : NoteId) :
     ((s.setExpiry k d).notes j).notified = (s.notes j).notified := by
-  simp only [State.acquire, State.release, State.incDisc, State.decDisc, State.setWaiters, State.setExpiry, State.setNotified, State.markFreed, State.eraseChild, State.clearParent, State.link, State.unlink, modNote_notes, upd_apply]; (repeat' split) <;> simp_all
+  simp only [State.acquire, State.release, State.incDisc, State.decDisc, State.setWaiters, State.setAdopted, State.setExpiry, State.setNotified, State.markFreed, State.eraseChild, State.clearParent, State.link, State.unlink, modNote_notes, upd_apply]; (repeat' split) <;> simp_all
 @[simp] theorem setExpiry_f_expiry (s : State) (k : NoteId) (d : Dl) (j : NoteId) :
     ((s.setExpiry k d).notes j).expiry = if j = k then d else (s.notes j).expiry := by
-  simp only [State.acquire, State.release, State.incDisc, State.decDisc, State.setWaiters, State.setExpiry, State.setNotified, State.markFreed, State.eraseChild, State.clearParent, State.link, State.unlink, modNote_notes, upd_apply]; (repeat' split) <;> simp_all
+  simp only [State.acquire, State.release, State.incDisc, State.decDisc, State.setWaiters, State.setAdopted, State.setExpiry, State.setNotified, State.markFreed, State.eraseChild, State.clearParent, State.link, State.unlink, modNote_notes, upd_apply]; (repeat' split) <;> simp_all
 @[simp] theorem setExpiry_f_disconnecting (s : State) (k : NoteId) (d : Dl) (j : NoteId) :
     ((s.setExpiry k d).notes j).disconnecting = (s.notes j).disconnecting := by
-  simp only [State.acquire, State.release, State.incDisc, State.decDisc, State.setWaiters, State.setExpiry, State.setNotified, State.markFreed, State.eraseChild, State.clearParent, State.link, State.unlink, modNote_notes, upd_apply]; (repeat' split) <;> simp_all
+  simp only [State.acquire, State.release, State.incDisc, State.decDisc, State.setWaiters, State.setAdopted, State.setExpiry, State.setNotified, State.markFreed, State.eraseChild, State.clearParent, State.link, State.unlink, modNote_notes, upd_apply]; (repeat' split) <;> simp_all
 @[simp] theorem setExpiry_f_waiters (s : State) (k : NoteId) (d : Dl) (j : NoteId) :
     ((s.setExpiry k d).notes j).waiters = (s.notes j).waiters := by
-  simp only [State.acquire, State.release, State.incDisc, State.decDisc, State.setWaiters, State.setExpiry, State.setNotified, State.markFreed, State.eraseChild, State.clearParent, State.link, State.unlink, modNote_notes, upd_apply]; (repeat' split) <;> simp_all
+  simp only [State.acquire, State.release, State.incDisc, State.decDisc, State.setWaiters, State.setAdopted, State.setExpiry, State.setNotified, State.markFreed, State.eraseChild, State.clearParent, State.link, State.unlink, modNote_notes, upd_apply]; (repeat' split) <;> simp_all
 @[simp] theorem setExpiry_f_lockHolder (s : State) (k : NoteId) (d : Dl) (j : NoteId) :
     ((s.setExpiry k d).notes j).lockHolder = (s.notes j).lockHolder := by
-  simp only [State.acquire, State.release, State.incDisc, State.decDisc, State.setWaiters, State.setExpiry, State.setNotified, State.markFreed, State.eraseChild, State.clearParent, State.link, State.unlink, modNote_notes, upd_apply]; (repeat' split) <;> simp_all
+  simp only [State.acquire, State.release, State.incDisc, State.decDisc, State.setWaiters, State.setAdopted, State.setExpiry, State.setNotified, State.markFreed, State.eraseChild, State.clearParent, State.link, State.unlink, modNote_notes, upd_apply]; (repeat' split) <;> simp_all
 @[simp] theorem setExpiry_f_allocated (s : State) (k : NoteId) (d : Dl) (j : NoteId) :
     ((s.setExpiry k d).notes j).allocated = (s.notes j).allocated := by
-  simp only [State.acquire, State.release, State.incDisc, State.decDisc, State.setWaiters, State.setExpiry, State.setNotified, State.markFreed, State.eraseChild, State.clearParent, State.link, State.unlink, modNote_notes, upd_apply]; (repeat' split) <;> simp_all
+  simp only [State.acquire, State.release, State.incDisc, State.decDisc, State.setWaiters, State.setAdopted, State.setExpiry, State.setNotified, State.markFreed, State.eraseChild, State.clearParent, State.link, State.unlink, modNote_notes, upd_apply]; (repeat' split) <;> simp_all
 @[simp] theorem setExpiry_f_freed (s : State) (k : NoteId) (d : Dl) (j : NoteId) :
     ((s.setExpiry k d).notes j).freed = (s.notes j).freed := by
-  simp only [State.acquire, State.release, State.incDisc, State.decDisc, State.setWaiters, State.setExpiry, State.setNotified, State.markFreed, State.eraseChild, State.clearParent, State.link, State.unlink, modNote_notes, upd_apply]; (repeat' split) <;> simp_all
+  simp only [State.acquire, State.release, State.incDisc, State.decDisc, State.setWaiters, State.setAdopted, State.setExpiry, State.setNotified, State.markFreed, State.eraseChild, State.clearParent, State.link, State.unlink, modNote_notes, upd_apply]; (repeat' split) <;> simp_all
+@[simp] theorem setExpiry_f_adopted (s : State) (k : NoteId) (d : Dl) (j : NoteId) :
+    ((s.setExpiry k d).notes j).adopted = (s.notes j).adopted := by
+  simp only [State.acquire, State.release, State.incDisc, State.decDisc, State.setWaiters, State.setAdopted, State.setExpiry, State.setNotified, State.markFreed, State.eraseChild, State.clearParent, State.link, State.unlink, modNote_notes, upd_apply]; (repeat' split) <;> simp_all
 @[simp] theorem setNotified_recs (s : State) (k : NoteId) : (s.setNotified k).recs = s.recs := rfl
 @[simp] theorem setNotified_now (s : State) (k : NoteId) : (s.setNotified k).now = s.now := rfl
 @[simp] theorem setNotified_pc (s : State) (k : NoteId) : (s.setNotified k).pc = s.pc := rfl
@@ -543,31 +605,34 @@ theorem upd_ne {β : Type} (f : Nat → β) {a x : Nat} (b : β) (h : x ≠ a) :
 @[simp] theorem setNotified_observed (s : State) (k : NoteId) : (s.setNotified k).observed = s.observed := rfl
 @[simp] theorem setNotified_f_parent (s : State) (k : NoteId) (j : NoteId) :
     ((s.setNotified k).notes j).parent = (s.notes j).parent := by
-  simp only [State.acquire, State.release, State.incDisc, State.decDisc, State.setWaiters, State.setExpiry, State.setNotified, State.markFreed, State.eraseChild, State.clearParent, State.link, State.unlink, modNote_notes, upd_apply]; (repeat' split) <;> simp_all
+  simp only [State.acquire, State.release, State.incDisc, State.decDisc, State.setWaiters, State.setAdopted, State.setExpiry, State.setNotified, State.markFreed, State.eraseChild, State.clearParent, State.link, State.unlink, modNote_notes, upd_apply]; (repeat' split) <;> simp_all
 @[simp] theorem setNotified_f_children (s : State) (k : NoteId) (j : NoteId) :
     ((s.setNotified k).notes j).children = (s.notes j).children := by
-  simp only [State.acquire, State.release, State.incDisc, State.decDisc, State.setWaiters, State.setExpiry, State.setNotified, State.markFreed, State.eraseChild, State.clearParent, State.link, State.unlink, modNote_notes, upd_apply]; (repeat' split) <;> simp_all
+  simp only [State.acquire, State.release, State.incDisc, State.decDisc, State.setWaiters, State.setAdopted, State.setExpiry, State.setNotified, State.markFreed, State.eraseChild, State.clearParent, State.link, State.unlink, modNote_notes, upd_apply]; (repeat' split) <;> simp_all
 @[simp] theorem setNotified_f_notified (s : State) (k : NoteId) (j : NoteId) :
     ((s.setNotified k).notes j).notified = if j = k then true else (s.notes j).notified := by
-  simp only [State.acquire, State.release, State.incDisc, State.decDisc, State.setWaiters, State.setExpiry, State.setNotified, State.markFreed, State.eraseChild, State.clearParent, State.link, State.unlink, modNote_notes, upd_apply]; (repeat' split) <;> simp_all
+  simp only [State.acquire, State.release, State.incDisc, State.decDisc, State.setWaiters, State.setAdopted, State.setExpiry, State.setNotified, State.markFreed, State.eraseChild, State.clearParent, State.link, State.unlink, modNote_notes, upd_apply]; (repeat' split) <;> simp_all
 @[simp] theorem setNotified_f_expiry (s : State) (k : NoteId) (j : NoteId) :
     ((s.setNotified k).notes j).expiry = (s.notes j).expiry := by
-  simp only [State.acquire, State.release, State.incDisc, State.decDisc, State.setWaiters, State.setExpiry, State.setNotified, State.markFreed, State.eraseChild, State.clearParent, State.link, State.unlink, modNote_notes, upd_apply]; (repeat' split) <;> simp_all
+  simp only [State.acquire, State.release, State.incDisc, State.decDisc, State.setWaiters, State.setAdopted, State.setExpiry, State.setNotified, State.markFreed, State.eraseChild, State.clearParent, State.link, State.unlink, modNote_notes, upd_apply]; (repeat' split) <;> simp_all
 @[simp] theorem setNotified_f_disconnecting (s : State) (k : NoteId) (j : NoteId) :
     ((s.setNotified k).notes j).disconnecting = (s.notes j).disconnecting := by
-  simp only [State.acquire, State.release, State.incDisc, State.decDisc, State.setWaiters, State.setExpiry, State.setNotified, State.markFreed, State.eraseChild, State.clearParent, State.link, State.unlink, modNote_notes, upd_apply]; (repeat' split) <;> simp_all
+  simp only [State.acquire, State.release, State.incDisc, State.decDisc, State.setWaiters, State.setAdopted, State.setExpiry, State.setNotified, State.markFreed, State.eraseChild, State.clearParent, State.link, State.unlink, modNote_notes, upd_apply]; (repeat' split) <;> simp_all
 @[simp] theorem setNotified_f_waiters (s : State) (k : NoteId) (j : NoteId) :
     ((s.setNotified k).notes j).waiters = (s.notes j).waiters := by
-  simp only [State.acquire, State.release, State.incDisc, State.decDisc, State.setWaiters, State.setExpiry, State.setNotified, State.markFreed, State.eraseChild, State.clearParent, State.link, State.unlink, modNote_notes, upd_apply]; (repeat' split) <;> simp_all
+  simp only [State.acquire, State.release, State.incDisc, State.decDisc, State.setWaiters, State.setAdopted, State.setExpiry, State.setNotified, State.markFreed, State.eraseChild, State.clearParent, State.link, State.unlink, modNote_notes, upd_apply]; (repeat' split) <;> simp_all
 @[simp] theorem setNotified_f_lockHolder (s : State) (k : NoteId) (j : NoteId) :
     ((s.setNotified k).notes j).lockHolder = (s.notes j).lockHolder := by
-  simp only [State.acquire, State.release, State.incDisc, State.decDisc, State.setWaiters, State.setExpiry, State.setNotified, State.markFreed, State.eraseChild, State.clearParent, State.link, State.unlink, modNote_notes, upd_apply]; (repeat' split) <;> simp_all
+  simp only [State.acquire, State.release, State.incDisc, State.decDisc, State.setWaiters, State.setAdopted, State.setExpiry, State.setNotified, State.markFreed, State.eraseChild, State.clearParent, State.link, State.unlink, modNote_notes, upd_apply]; (repeat' split) <;> simp_all
 @[simp] theorem setNotified_f_allocated (s : State) (k : NoteId) (j : NoteId) :
     ((s.setNotified k).notes j).allocated = (s.notes j).allocated := by
-  simp only [State.acquire, State.release, State.incDisc, State.decDisc, State.setWaiters, State.setExpiry, State.setNotified, State.markFreed, State.eraseChild, State.clearParent, State.link, State.unlink, modNote_notes, upd_apply]; (repeat' split) <;> simp_all
+  simp only [State.acquire, State.release, State.incDisc, State.decDisc, State.setWaiters, State.setAdopted, State.setExpiry, State.setNotified, State.markFreed, State.eraseChild, State.clearParent, State.link, State.unlink, modNote_notes, upd_apply]; (repeat' split) <;> simp_all
 @[simp] theorem setNotified_f_freed (s : State) (k : NoteId) (j : NoteId) :
     ((s.setNotified k).notes j).freed = (s.notes j).freed := by
-  simp only [State.acquire, State.release, State.incDisc, State.decDisc, State.setWaiters, State.setExpiry, State.setNotified, State.markFreed, State.eraseChild, State.clearParent, State.link, State.unlink, modNote_notes, upd_apply]; (repeat' split) <;> simp_all
+  simp only [State.acquire, State.release, State.incDisc, State.decDisc, State.setWaiters, State.setAdopted, State.setExpiry, State.setNotified, State.markFreed, State.eraseChild, State.clearParent, State.link, State.unlink, modNote_notes, upd_apply]; (repeat' split) <;> simp_all
+@[simp] theorem setNotified_f_adopted (s : State) (k : NoteId) (j : NoteId) :
+    ((s.setNotified k).notes j).adopted = (s.notes j).adopted := by
+  simp only [State.acquire, State.release, State.incDisc, State.decDisc, State.setWaiters, State.setAdopted, State.setExpiry, State.setNotified, State.markFreed, State.eraseChild, State.clearParent, State.link, State.unlink, modNote_notes, upd_apply]; (repeat' split) <;> simp_all
 @[simp] theorem markFreed_recs (s : State) (k : NoteId) : (s.markFreed k).recs = s.recs := rfl
 @[simp] theorem markFreed_now (s : State) (k : NoteId) : (s.markFreed k).now = s.now := rfl
 @[simp] theorem markFreed_pc (s : State) (k : NoteId) : (s.markFreed k).pc = s.pc := rfl
@@ -584,31 +649,34 @@ theorem upd_ne {β : Type} (f : Nat → β) {a x : Nat} (b : β) (h : x ≠ a) :
 @[simp] theorem markFreed_observed (s : State) (k : NoteId) : (s.markFreed k).observed = s.observed := rfl
 @[simp] theorem markFreed_f_parent (s : State) (k : NoteId) (j : NoteId) :
     ((s.markFreed k).notes j).parent = (s.notes j).parent := by
-  simp only [State.acquire, State.release, State.incDisc, State.decDisc, State.setWaiters, State.setExpiry, State.setNotified, State.markFreed, State.eraseChild, State.clearParent, State.link, State.unlink, modNote_notes, upd_apply]; (repeat' split) <;> simp_all
+  simp only [State.acquire, State.release, State.incDisc, State.decDisc, State.setWaiters, State.setAdopted, State.setExpiry, State.setNotified, State.markFreed, State.eraseChild, State.clearParent, State.link, State.unlink, modNote_notes, upd_apply]; (repeat' split) <;> simp_all
 @[simp] theorem markFreed_f_children (s : State) (k : NoteId) (j : NoteId) :
     ((s.markFreed k).notes j).children = (s.notes j).children := by
-  simp only [State.acquire, State.release, State.incDisc, State.decDisc, State.setWaiters, State.setExpiry, State.setNotified, State.markFreed, State.eraseChild, State.clearParent, State.link, State.unlink, modNote_notes, upd_apply]; (repeat' split) <;> simp_all
+  simp only [State.acquire, State.release, State.incDisc, State.decDisc, State.setWaiters, State.setAdopted, State.setExpiry, State.setNotified, State.markFreed, State.eraseChild, State.clearParent, State.link, State.unlink, modNote_notes, upd_apply]; (repeat' split) <;> simp_all
 @[simp] theorem markFreed_f_notified (s : State) (k : NoteId) (j : NoteId) :
     ((s.markFreed k).notes j).notified = (s.notes j).notified := by
-  simp only [State.acquire, State.release, State.incDisc, State.decDisc, State.setWaiters, State.setExpiry, State.setNotified, State.markFreed, State.eraseChild, State.clearParent, State.link, State.unlink, modNote_notes, upd_apply]; (repeat' split) <;> simp_all
+  simp only [State.acquire, State.release, State.incDisc, State.decDisc, State.setWaiters, State.setAdopted, State.setExpiry, State.setNotified, State.markFreed, State.eraseChild, State.clearParent, State.link, State.unlink, modNote_notes, upd_apply]; (repeat' split) <;> simp_all
 @[simp] theorem markFreed_f_expiry (s : State) (k : NoteId) (j : NoteId) :
     ((s.markFreed k).notes j).expiry = (s.notes j).expiry := by
-  simp only [State.acquire, State.release, State.incDisc, State.decDisc, State.setWaiters, State.setExpiry, State.setNotified, State.markFreed, State.eraseChild, State.clearParent, State.link, State.unlink, modNote_notes, upd_apply]; (repeat' split) <;> simp_all
+  simp only [State.acquire, State.release, State.incDisc, State.decDisc, State.setWaiters, State.setAdopted, State.setExpiry, State.setNotified, State.markFreed, State.eraseChild, State.clearParent, State.link, State.unlink, modNote_notes, upd_apply]; (repeat' split) <;> simp_all
 @[simp] theorem markFreed_f_disconnecting (s : State) (k : NoteId) (j : NoteId) :
     ((s.markFreed k).notes j).disconnecting = (s.notes j).disconnecting := by
-  simp only [State.acquire, State.release, State.incDisc, State.decDisc, State.setWaiters, State.setExpiry, State.setNotified, State.markFreed, State.eraseChild, State.clearParent, State.link, State.unlink, modNote_notes, upd_apply]; (repeat' split) <;> simp_all
+  simp only [State.acquire, State.release, State.incDisc, State.decDisc, State.setWaiters, State.setAdopted, State.setExpiry, State.setNotified, State.markFreed, State.eraseChild, State.clearParent, State.link, State.unlink, modNote_notes, upd_apply]; (repeat' split) <;> simp_all
 @[simp] theorem markFreed_f_waiters (s : State) (k : NoteId) (j : NoteId) :
     ((s.markFreed k).notes j).waiters = (s.notes j).waiters := by
-  simp only [State.acquire, State.release, State.incDisc, State.decDisc, State.setWaiters, State.setExpiry, State.setNotified, State.markFreed, State.eraseChild, State.clearParent, State.link, State.unlink, modNote_notes, upd_apply]; (repeat' split) <;> simp_all
+  simp only [State.acquire, State.release, State.incDisc, State.decDisc, State.setWaiters, State.setAdopted, State.setExpiry, State.setNotified, State.markFreed, State.eraseChild, State.clearParent, State.link, State.unlink, modNote_notes, upd_apply]; (repeat' split) <;> simp_all
 @[simp] theorem markFreed_f_lockHolder (s : State) (k : NoteId) (j : NoteId) :
     ((s.markFreed k).notes j).lockHolder = (s.notes j).lockHolder := by
-  simp only [State.acquire, State.release, State.incDisc, State.decDisc, State.setWaiters, State.setExpiry, State.setNotified, State.markFreed, State.eraseChild, State.clearParent, State.link, State.unlink, modNote_notes, upd_apply]; (repeat' split) <;> simp_all
+  simp only [State.acquire, State.release, State.incDisc, State.decDisc, State.setWaiters, State.setAdopted, State.setExpiry, State.setNotified, State.markFreed, State.eraseChild, State.clearParent, State.link, State.unlink, modNote_notes, upd_apply]; (repeat' split) <;> simp_all
 @[simp] theorem markFreed_f_allocated (s : State) (k : NoteId) (j : NoteId) :
     ((s.markFreed k).notes j).allocated = (s.notes j).allocated := by
-  simp only [State.acquire, State.release, State.incDisc, State.decDisc, State.setWaiters, State.setExpiry, State.setNotified, State.markFreed, State.eraseChild, State.clearParent, State.link, State.unlink, modNote_notes, upd_apply]; (repeat' split) <;> simp_all
+  simp only [State.acquire, State.release, State.incDisc, State.decDisc, State.setWaiters, State.setAdopted, State.setExpiry, State.setNotified, State.markFreed, State.eraseChild, State.clearParent, State.link, State.unlink, modNote_notes, upd_apply]; (repeat' split) <;> simp_all
 @[simp] theorem markFreed_f_freed (s : State) (k : NoteId) (j : NoteId) :
     ((s.markFreed k).notes j).freed = if j = k then true else (s.notes j).freed := by
-  simp only [State.acquire, State.release, State.incDisc, State.decDisc, State.setWaiters, State.setExpiry, State.setNotified, State.markFreed, State.eraseChild, State.clearParent, State.link, State.unlink, modNote_notes, upd_apply]; (repeat' split) <;> simp_all
+  simp only [State.acquire, State.release, State.incDisc, State.decDisc, State.setWaiters, State.setAdopted, State.setExpiry, State.setNotified, State.markFreed, State.eraseChild, State.clearParent, State.link, State.unlink, modNote_notes, upd_apply]; (repeat' split) <;> simp_all
+@[simp] theorem markFreed_f_adopted (s : State) (k : NoteId) (j : NoteId) :
+    ((s.markFreed k).notes j).adopted = (s.notes j).adopted := by
+  simp only [State.acquire, State.release, State.incDisc, State.decDisc, State.setWaiters, State.setAdopted, State.setExpiry, State.setNotified, State.markFreed, State.eraseChild, State.clearParent, State.link, State.unlink, modNote_notes, upd_apply]; (repeat' split) <;> simp_all
 @[simp] theorem eraseChild_recs (s : State) (n c : NoteId) : (s.eraseChild n c).recs = s.recs := rfl
 @[simp] theorem eraseChild_now (s : State) (n c : NoteId) : (s.eraseChild n c).now = s.now := rfl
 @[simp] theorem eraseChild_pc (s : State) (n c : NoteId) : (s.eraseChild n c).pc = s.pc := rfl
@@ -625,31 +693,34 @@ theorem upd_ne {β : Type} (f : Nat → β) {a x : Nat} (b : β) (h : x ≠ a) :
 @[simp] theorem eraseChild_observed (s : State) (n c : NoteId) : (s.eraseChild n c).observed = s.observed := rfl
 @[simp] theorem eraseChild_f_parent (s : State) (n c : NoteId) (j : NoteId) :
     ((s.eraseChild n c).notes j).parent = (s.notes j).parent := by
-  simp only [State.acquire, State.release, State.incDisc, State.decDisc, State.setWaiters, State.setExpiry, State.setNotified, State.markFreed, State.eraseChild, State.clearParent, State.link, State.unlink, modNote_notes, upd_apply]; (repeat' split) <;> simp_all
+  simp only [State.acquire, State.release, State.incDisc, State.decDisc, State.setWaiters, State.setAdopted, State.setExpiry, State.setNotified, State.markFreed, State.eraseChild, State.clearParent, State.link, State.unlink, modNote_notes, upd_apply]; (repeat' split) <;> simp_all
 @[simp] theorem eraseChild_f_children (s : State) (n c : NoteId) (j : NoteId) :
     ((s.eraseChild n c).notes j).children = if j = n then (s.notes j).children.erase c else (s.notes j).children := by
-  simp only [State.acquire, State.release, State.incDisc, State.decDisc, State.setWaiters, State.setExpiry, State.setNotified, State.markFreed, State.eraseChild, State.clearParent, State.link, State.unlink, modNote_notes, upd_apply]; (repeat' split) <;> simp_all
+  simp only [State.acquire, State.release, State.incDisc, State.decDisc, State.setWaiters, State.setAdopted, State.setExpiry, State.setNotified, State.markFreed, State.eraseChild, State.clearParent, State.link, State.unlink, modNote_notes, upd_apply]; (repeat' split) <;> simp_all
 @[simp] theorem eraseChild_f_notified (s : State) (n c : NoteId) (j : NoteId) :
     ((s.eraseChild n c).notes j).notified = (s.notes j).notified := by
-  simp only [State.acquire, State.release, State.incDisc, State.decDisc, State.setWaiters, State.setExpiry, State.setNotified, State.markFreed, State.eraseChild, State.clearParent, State.link, State.unlink, modNote_notes, upd_apply]; (repeat' split) <;> simp_all
+  simp only [State.acquire, State.release, State.incDisc, State.decDisc, State.setWaiters, State.setAdopted, State.setExpiry, State.setNotified, State.markFreed, State.eraseChild, State.clearParent, State.link, State.unlink, modNote_notes, upd_apply]; (repeat' split) <;> simp_all
 @[simp] theorem eraseChild_f_expiry (s : State) (n c : NoteId) (j : NoteId) :
     ((s.eraseChild n c).notes j).expiry = (s.notes j).expiry := by
-  simp only [State.acquire, State.release, State.incDisc, State.decDisc, State.setWaiters, State.setExpiry, State.setNotified, State.markFreed, State.eraseChild, State.clearParent, State.link, State.unlink, modNote_notes, upd_apply]; (repeat' split) <;> simp_all
+  simp only [State.acquire, State.release, State.incDisc, State.decDisc, State.setWaiters, State.setAdopted, State.setExpiry, State.setNotified, State.markFreed, State.eraseChild, State.clearParent, State.link, State.unlink, modNote_notes, upd_apply]; (repeat' split) <;> simp_all
 @[simp] theorem eraseChild_f_disconnecting (s : State) (n c : NoteId) (j : NoteId) :
     ((s.eraseChild n c).notes j).disconnecting = (s.notes j).disconnecting := by
-  simp only [State.acquire, State.release, State.incDisc, State.decDisc, State.setWaiters, State.setExpiry, State.setNotified, State.markFreed, State.eraseChild, State.clearParent, State.link, State.unlink, modNote_notes, upd_apply]; (repeat' split) <;> simp_all
+  simp only [State.acquire, State.release, State.incDisc, State.decDisc, State.setWaiters, State.setAdopted, State.setExpiry, State.setNotified, State.markFreed, State.eraseChild, State.clearParent, State.link, State.unlink, modNote_notes, upd_apply]; (repeat' split) <;> simp_all
 @[simp] theorem eraseChild_f_waiters (s : State) (n c : NoteId) (j : NoteId) :
     ((s.eraseChild n c).notes j).waiters = (s.notes j).waiters := by
-  simp only [State.acquire, State.release, State.incDisc, State.decDisc, State.setWaiters, State.setExpiry, State.setNotified, State.markFreed, State.eraseChild, State.clearParent, State.link, State.unlink, modNote_notes, upd_apply]; (repeat' split) <;> simp_all
+  simp only [State.acquire, State.release, State.incDisc, State.decDisc, State.setWaiters, State.setAdopted, State.setExpiry, State.setNotified, State.markFreed, State.eraseChild, State.clearParent, State.link, State.unlink, modNote_notes, upd_apply]; (repeat' split) <;> simp_all
 @[simp] theorem eraseChild_f_lockHolder (s : State) (n c : NoteId) (j : NoteId) :
     ((s.eraseChild n c).notes j).lockHolder = (s.notes j).lockHolder := by
-  simp only [State.acquire, State.release, State.incDisc, State.decDisc, State.setWaiters, State.setExpiry, State.setNotified, State.markFreed, State.eraseChild, State.clearParent, State.link, State.unlink, modNote_notes, upd_apply]; (repeat' split) <;> simp_all
+  simp only [State.acquire, State.release, State.incDisc, State.decDisc, State.setWaiters, State.setAdopted, State.setExpiry, State.setNotified, State.markFreed, State.eraseChild, State.clearParent, State.link, State.unlink, modNote_notes, upd_apply]; (repeat' split) <;> simp_all
 @[simp] theorem eraseChild_f_allocated (s : State) (n c : NoteId) (j : NoteId) :
     ((s.eraseChild n c).notes j).allocated = (s.notes j).allocated := by
-  simp only [State.acquire, State.release, State.incDisc, State.decDisc, State.setWaiters, State.setExpiry, State.setNotified, State.markFreed, State.eraseChild, State.clearParent, State.link, State.unlink, modNote_notes, upd_apply]; (repeat' split) <;> simp_all
+  simp only [State.acquire, State.release, State.incDisc, State.decDisc, State.setWaiters, State.setAdopted, State.setExpiry, State.setNotified, State.markFreed, State.eraseChild, State.clearParent, State.link, State.unlink, modNote_notes, upd_apply]; (repeat' split) <;> simp_all
 @[simp] theorem eraseChild_f_freed (s : State) (n c : NoteId) (j : NoteId) :
     ((s.eraseChild n c).notes j).freed = (s.notes j).freed := by
-  simp only [State.acquire, State.release, State.incDisc, State.decDisc, State.setWaiters, State.setExpiry, State.setNotified, State.markFreed, State.eraseChild, State.clearParent, State.link, State.unlink, modNote_notes, upd_apply]; (repeat' split) <;> simp_all
+  simp only [State.acquire, State.release, State.incDisc, State.decDisc, State.setWaiters, State.setAdopted, State.setExpiry, State.setNotified, State.markFreed, State.eraseChild, State.clearParent, State.link, State.unlink, modNote_notes, upd_apply]; (repeat' split) <;> simp_all
+@[simp] theorem eraseChild_f_adopted (s : State) (n c : NoteId) (j : NoteId) :
+    ((s.eraseChild n c).notes j).adopted = (s.notes j).adopted := by
+  simp only [State.acquire, State.release, State.incDisc, State.decDisc, State.setWaiters, State.setAdopted, State.setExpiry, State.setNotified, State.markFreed, State.eraseChild, State.clearParent, State.link, State.unlink, modNote_notes, upd_apply]; (repeat' split) <;> simp_all
 @[simp] theorem clearParent_recs (s : State) (c : NoteId) : (s.clearParent c).recs = s.recs := rfl
 @[simp] theorem clearParent_now (s : State) (c : NoteId) : (s.clearParent c).now = s.now := rfl
 @[simp] theorem clearParent_pc (s : State) (c : NoteId) : (s.clearParent c).pc = s.pc := rfl
@@ -666,31 +737,34 @@ theorem upd_ne {β : Type} (f : Nat → β) {a x : Nat} (b : β) (h : x ≠ a) :
 @[simp] theorem clearParent_observed (s : State) (c : NoteId) : (s.clearParent c).observed = s.observed := rfl
 @[simp] theorem clearParent_f_parent (s : State) (c : NoteId) (j : NoteId) :
     ((s.clearParent c).notes j).parent = if j = c then none else (s.notes j).parent := by
-  simp only [State.acquire, State.release, State.incDisc, State.decDisc, State.setWaiters, State.setExpiry, State.setNotified, State.markFreed, State.eraseChild, State.clearParent, State.link, State.unlink, modNote_notes, upd_apply]; (repeat' split) <;> simp_all
+  simp only [State.acquire, State.release, State.incDisc, State.decDisc, State.setWaiters, State.setAdopted, State.setExpiry, State.setNotified, State.markFreed, State.eraseChild, State.clearParent, State.link, State.unlink, modNote_notes, upd_apply]; (repeat' split) <;> simp_all
 @[simp] theorem clearParent_f_children (s : State) (c : NoteId) (j : NoteId) :
     ((s.clearParent c).notes j).children = (s.notes j).children := by
-  simp only [State.acquire, State.release, State.incDisc, State.decDisc, State.setWaiters, State.setExpiry, State.setNotified, State.markFreed, State.eraseChild, State.clearParent, State.link, State.unlink, modNote_notes, upd_apply]; (repeat' split) <;> simp_all
+  simp only [State.acquire, State.release, State.incDisc, State.decDisc, State.setWaiters, State.setAdopted, State.setExpiry, State.setNotified, State.markFreed, State.eraseChild, State.clearParent, State.link, State.unlink, modNote_notes, upd_apply]; (repeat' split) <;> simp_all
 @[simp] theorem clearParent_f_notified (s : State) (c : NoteId) (j : NoteId) :
     ((s.clearParent c).notes j).notified = (s.notes j).notified := by
-  simp only [State.acquire, State.release, State.incDisc, State.decDisc, State.setWaiters, State.setExpiry, State.setNotified, State.markFreed, State.eraseChild, State.clearParent, State.link, State.unlink, modNote_notes, upd_apply]; (repeat' split) <;> simp_all
+  simp only [State.acquire, State.release, State.incDisc, State.decDisc, State.setWaiters, State.setAdopted, State.setExpiry, State.setNotified, State.markFreed, State.eraseChild, State.clearParent, State.link, State.unlink, modNote_notes, upd_apply]; (repeat' split) <;> simp_all
 @[simp] theorem clearParent_f_expiry (s : State) (c : NoteId) (j : NoteId) :
     ((s.clearParent c).notes j).expiry = (s.notes j).expiry := by
-  simp only [State.acquire, State.release, State.incDisc, State.decDisc, State.setWaiters, State.setExpiry, State.setNotified, State.markFreed, State.eraseChild, State.clearParent, State.link, State.unlink, modNote_notes, upd_apply]; (repeat' split) <;> simp_all
+  simp only [State.acquire, State.release, State.incDisc, State.decDisc, State.setWaiters, State.setAdopted, State.setExpiry, State.setNotified, State.markFreed, State.eraseChild, State.clearParent, State.link, State.unlink, modNote_notes, upd_apply]; (repeat' split) <;> simp_all
 @[simp] theorem clearParent_f_disconnecting (s : State) (c : NoteId) (j : NoteId) :
     ((s.clearParent c).notes j).disconnecting = (s.notes j).disconnecting := by
-  simp only [State.acquire, State.release, State.incDisc, State.decDisc, State.setWaiters, State.setExpiry, State.setNotified, State.markFreed, State.eraseChild, State.clearParent, State.link, State.unlink, modNote_notes, upd_apply]; (repeat' split) <;> simp_all
+  simp only [State.acquire, State.release, State.incDisc, State.decDisc, State.setWaiters, State.setAdopted, State.setExpiry, State.setNotified, State.markFreed, State.eraseChild, State.clearParent, State.link, State.unlink, modNote_notes, upd_apply]; (repeat' split) <;> simp_all
 @[simp] theorem clearParent_f_waiters (s : State) (c : NoteId) (j : NoteId) :
     ((s.clearParent c).notes j).waiters = (s.notes j).waiters := by
-  simp only [State.acquire, State.release, State.incDisc, State.decDisc, State.setWaiters, State.setExpiry, State.setNotified, State.markFreed, State.eraseChild, State.clearParent, State.link, State.unlink, modNote_notes, upd_apply]; (repeat' split) <;> simp_all
+  simp only [State.acquire, State.release, State.incDisc, State.decDisc, State.setWaiters, State.setAdopted, State.setExpiry, State.setNotified, State.markFreed, State.eraseChild, State.clearParent, State.link, State.unlink, modNote_notes, upd_apply]; (repeat' split) <;> simp_all
 @[simp] theorem clearParent_f_lockHolder (s : State) (c : NoteId) (j : NoteId) :
     ((s.clearParent c).notes j).lockHolder = (s.notes j).lockHolder := by
-  simp only [State.acquire, State.release, State.incDisc, State.decDisc, State.setWaiters, State.setExpiry, State.setNotified, State.markFreed, State.eraseChild, State.clearParent, State.link, State.unlink, modNote_notes, upd_apply]; (repeat' split) <;> simp_all
+  simp only [State.acquire, State.release, State.incDisc, State.decDisc, State.setWaiters, State.setAdopted, State.setExpiry, State.setNotified, State.markFreed, State.eraseChild, State.clearParent, State.link, State.unlink, modNote_notes, upd_apply]; (repeat' split) <;> simp_all
 @[simp] theorem clearParent_f_allocated (s : State) (c : NoteId) (j : NoteId) :
     ((s.clearParent c).notes j).allocated = (s.notes j).allocated := by
-  simp only [State.acquire, State.release, State.incDisc, State.decDisc, State.setWaiters, State.setExpiry, State.setNotified, State.markFreed, State.eraseChild, State.clearParent, State.link, State.unlink, modNote_notes, upd_apply]; (repeat' split) <;> simp_all
+  simp only [State.acquire, State.release, State.incDisc, State.decDisc, State.setWaiters, State.setAdopted, State.setExpiry, State.setNotified, State.markFreed, State.eraseChild, State.clearParent, State.link, State.unlink, modNote_notes, upd_apply]; (repeat' split) <;> simp_all
 @[simp] theorem clearParent_f_freed (s : State) (c : NoteId) (j : NoteId) :
     ((s.clearParent c).notes j).freed = (s.notes j).freed := by
-  simp only [State.acquire, State.release, State.incDisc, State.decDisc, State.setWaiters, State.setExpiry, State.setNotified, State.markFreed, State.eraseChild, State.clearParent, State.link, State.unlink, modNote_notes, upd_apply]; (repeat' split) <;> simp_all
+  simp only [State.acquire, State.release, State.incDisc, State.decDisc, State.setWaiters, State.setAdopted, State.setExpiry, State.setNotified, State.markFreed, State.eraseChild, State.clearParent, State.link, State.unlink, modNote_notes, upd_apply]; (repeat' split) <;> simp_all
+@[simp] theorem clearParent_f_adopted (s : State) (c : NoteId) (j : NoteId) :
+    ((s.clearParent c).notes j).adopted = (s.notes j).adopted := by
+  simp only [State.acquire, State.release, State.incDisc, State.decDisc, State.setWaiters, State.setAdopted, State.setExpiry, State.setNotified, State.markFreed, State.eraseChild, State.clearParent, State.link, State.unlink, modNote_notes, upd_apply]; (repeat' split) <;> simp_all
 @[simp] theorem link_recs (s : State) (c p : NoteId) : (s.link c p).recs = s.recs := rfl
 @[simp] theorem link_now (s : State) (c p : NoteId) : (s.link c p).now = s.now := rfl
 @[simp] theorem link_pc (s : State) (c p : NoteId) : (s.link c p).pc = s.pc := rfl
@@ -707,31 +781,34 @@ theorem upd_ne {β : Type} (f : Nat → β) {a x : Nat} (b : β) (h : x ≠ a) :
 @[simp] theorem link_observed (s : State) (c p : NoteId) : (s.link c p).observed = s.observed := rfl
 @[simp] theorem link_f_parent (s : State) (c p : NoteId) (j : NoteId) :
     ((s.link c p).notes j).parent = if j = c then some p else (s.notes j).parent := by
-  simp only [State.acquire, State.release, State.incDisc, State.decDisc, State.setWaiters, State.setExpiry, State.setNotified, State.markFreed, State.eraseChild, State.clearParent, State.link, State.unlink, modNote_notes, upd_apply]; (repeat' split) <;> simp_all
+  simp only [State.acquire, State.release, State.incDisc, State.decDisc, State.setWaiters, State.setAdopted, State.setExpiry, State.setNotified, State.markFreed, State.eraseChild, State.clearParent, State.link, State.unlink, modNote_notes, upd_apply]; (repeat' split) <;> simp_all
 @[simp] theorem link_f_children (s : State) (c p : NoteId) (j : NoteId) :
     ((s.link c p).notes j).children = if j = p then (s.notes j).children ++ [c] else (s.notes j).children := by
-  simp only [State.acquire, State.release, State.incDisc, State.decDisc, State.setWaiters, State.setExpiry, State.setNotified, State.markFreed, State.eraseChild, State.clearParent, State.link, State.unlink, modNote_notes, upd_apply]; (repeat' split) <;> simp_all
+  simp only [State.acquire, State.release, State.incDisc, State.decDisc, State.setWaiters, State.setAdopted, State.setExpiry, State.setNotified, State.markFreed, State.eraseChild, State.clearParent, State.link, State.unlink, modNote_notes, upd_apply]; (repeat' split) <;> simp_all
 @[simp] theorem link_f_notified (s : State) (c p : NoteId) (j : NoteId) :
     ((s.link c p).notes j).notified = (s.notes j).notified := by
-  simp only [State.acquire, State.release, State.incDisc, State.decDisc, State.setWaiters, State.setExpiry, State.setNotified, State.markFreed, State.eraseChild, State.clearParent, State.link, State.unlink, modNote_notes, upd_apply]; (repeat' split) <;> simp_all
+  simp only [State.acquire, State.release, State.incDisc, State.decDisc, State.setWaiters, State.setAdopted, State.setExpiry, State.setNotified, State.markFreed, State.eraseChild, State.clearParent, State.link, State.unlink, modNote_notes, upd_apply]; (repeat' split) <;> simp_all
 @[simp] theorem link_f_expiry (s : State) (c p : NoteId) (j : NoteId) :
     ((s.link c p).notes j).expiry = (s.notes j).expiry := by
-  simp only [State.acquire, State.release, State.incDisc, State.decDisc, State.setWaiters, State.setExpiry, State.setNotified, State.markFreed, State.eraseChild, State.clearParent, State.link, State.unlink, modNote_notes, upd_apply]; (repeat' split) <;> simp_all
+  simp only [State.acquire, State.release, State.incDisc, State.decDisc, State.setWaiters, State.setAdopted, State.setExpiry, State.setNotified, State.markFreed, State.eraseChild, State.clearParent, State.link, State.unlink, modNote_notes, upd_apply]; (repeat' split) <;> simp_all
 @[simp] theorem link_f_disconnecting (s : State) (c p : NoteId) (j : NoteId) :
     ((s.link c p).notes j).disconnecting = (s.notes j).disconnecting := by
-  simp only [State.acquire, State.release, State.incDisc, State.decDisc, State.setWaiters, State.setExpiry, State.setNotified, State.markFreed, State.eraseChild, State.clearParent, State.link, State.unlink, modNote_notes, upd_apply]; (repeat' split) <;> simp_all
+  simp only [State.acquire, State.release, State.incDisc, State.decDisc, State.setWaiters, State.setAdopted, State.setExpiry, State.setNotified, State.markFreed, State.eraseChild, State.clearParent, State.link, State.unlink, modNote_notes, upd_apply]; (repeat' split) <;> simp_all
 @[simp] theorem link_f_waiters (s : State) (c p : NoteId) (j : NoteId) :
     ((s.link c p).notes j).waiters = (s.notes j).waiters := by
-  simp only [State.acquire, State.release, State.incDisc, State.decDisc, State.setWaiters, State.setExpiry, State.setNotified, State.markFreed, State.eraseChild, State.clearParent, State.link, State.unlink, modNote_notes, upd_apply]; (repeat' split) <;> simp_all
+  simp only [State.acquire, State.release, State.incDisc, State.decDisc, State.setWaiters, State.setAdopted, State.setExpiry, State.setNotified, State.markFreed, State.eraseChild, State.clearParent, State.link, State.unlink, modNote_notes, upd_apply]; (repeat' split) <;> simp_all
 @[simp] theorem link_f_lockHolder (s : State) (c p : NoteId) (j : NoteId) :
     ((s.link c p).notes j).lockHolder = (s.notes j).lockHolder := by
-  simp only [State.acquire, State.release, State.incDisc, State.decDisc, State.setWaiters, State.setExpiry, State.setNotified, State.markFreed, State.eraseChild, State.clearParent, State.link, State.unlink, modNote_notes, upd_apply]; (repeat' split) <;> simp_all
+  simp only [State.acquire, State.release, State.incDisc, State.decDisc, State.setWaiters, State.setAdopted, State.setExpiry, State.setNotified, State.markFreed, State.eraseChild, State.clearParent, State.link, State.unlink, modNote_notes, upd_apply]; (repeat' split) <;> simp_all
 @[simp] theorem link_f_allocated (s : State) (c p : NoteId) (j : NoteId) :
     ((s.link c p).notes j).allocated = (s.notes j).allocated := by
-  simp only [State.acquire, State.release, State.incDisc, State.decDisc, State.setWaiters, State.setExpiry, State.setNotified, State.markFreed, State.eraseChild, State.clearParent, State.link, State.unlink, modNote_notes, upd_apply]; (repeat' split) <;> simp_all
+  simp only [State.acquire, State.release, State.incDisc, State.decDisc, State.setWaiters, State.setAdopted, State.setExpiry, State.setNotified, State.markFreed, State.eraseChild, State.clearParent, State.link, State.unlink, modNote_notes, upd_apply]; (repeat' split) <;> simp_all
 @[simp] theorem link_f_freed (s : State) (c p : NoteId) (j : NoteId) :
     ((s.link c p).notes j).freed = (s.notes j).freed := by
-  simp only [State.acquire, State.release, State.incDisc, State.decDisc, State.setWaiters, State.setExpiry, State.setNotified, State.markFreed, State.eraseChild, State.clearParent, State.link, State.unlink, modNote_notes, upd_apply]; (repeat' split) <;> simp_all
+  simp only [State.acquire, State.release, State.incDisc, State.decDisc, State.setWaiters, State.setAdopted, State.setExpiry, State.setNotified, State.markFreed, State.eraseChild, State.clearParent, State.link, State.unlink, modNote_notes, upd_apply]; (repeat' split) <;> simp_all
+@[simp] theorem link_f_adopted (s : State) (c p : NoteId) (j : NoteId) :
+    ((s.link c p).notes j).adopted = (s.notes j).adopted := by
+  simp only [State.acquire, State.release, State.incDisc, State.decDisc, State.setWaiters, State.setAdopted, State.setExpiry, State.setNotified, State.markFreed, State.eraseChild, State.clearParent, State.link, State.unlink, modNote_notes, upd_apply]; (repeat' split) <;> simp_all
 @[simp] theorem unlink_recs (s : State) (c p : NoteId) : (s.unlink c p).recs = s.recs := rfl
 @[simp] theorem unlink_now (s : State) (c p : NoteId) : (s.unlink c p).now = s.now := rfl
 @[simp] theorem unlink_pc (s : State) (c p : NoteId) : (s.unlink c p).pc = s.pc := rfl
@@ -748,31 +825,34 @@ theorem upd_ne {β : Type} (f : Nat → β) {a x : Nat} (b : β) (h : x ≠ a) :
 @[simp] theorem unlink_observed (s : State) (c p : NoteId) : (s.unlink c p).observed = s.observed := rfl
 @[simp] theorem unlink_f_parent (s : State) (c p : NoteId) (j : NoteId) :
     ((s.unlink c p).notes j).parent = if j = c then none else (s.notes j).parent := by
-  simp only [State.acquire, State.release, State.incDisc, State.decDisc, State.setWaiters, State.setExpiry, State.setNotified, State.markFreed, State.eraseChild, State.clearParent, State.link, State.unlink, modNote_notes, upd_apply]; (repeat' split) <;> simp_all
+  simp only [State.acquire, State.release, State.incDisc, State.decDisc, State.setWaiters, State.setAdopted, State.setExpiry, State.setNotified, State.markFreed, State.eraseChild, State.clearParent, State.link, State.unlink, modNote_notes, upd_apply]; (repeat' split) <;> simp_all
 @[simp] theorem unlink_f_children (s : State) (c p : NoteId) (j : NoteId) :
     ((s.unlink c p).notes j).children = if j = p then (s.notes j).children.erase c else (s.notes j).children := by
-  simp only [State.acquire, State.release, State.incDisc, State.decDisc, State.setWaiters, State.setExpiry, State.setNotified, State.markFreed, State.eraseChild, State.clearParent, State.link, State.unlink, modNote_notes, upd_apply]; (repeat' split) <;> simp_all
+  simp only [State.acquire, State.release, State.incDisc, State.decDisc, State.setWaiters, State.setAdopted, State.setExpiry, State.setNotified, State.markFreed, State.eraseChild, State.clearParent, State.link, State.unlink, modNote_notes, upd_apply]; (repeat' split) <;> simp_all
 @[simp] theorem unlink_f_notified (s : State) (c p : NoteId) (j : NoteId) :
     ((s.unlink c p).notes j).notified = (s.notes j).notified := by
-  simp only [State.acquire, State.release, State.incDisc, State.decDisc, State.setWaiters, State.setExpiry, State.setNotified, State.markFreed, State.eraseChild, State.clearParent, State.link, State.unlink, modNote_notes, upd_apply]; (repeat' split) <;> simp_all
+  simp only [State.acquire, State.release, State.incDisc, State.decDisc, State.setWaiters, State.setAdopted, State.setExpiry, State.setNotified, State.markFreed, State.eraseChild, State.clearParent, State.link, State.unlink, modNote_notes, upd_apply]; (repeat' split) <;> simp_all
 @[simp] theorem unlink_f_expiry (s : State) (c p : NoteId) (j : NoteId) :
     ((s.unlink c p).notes j).expiry = (s.notes j).expiry := by
-  simp only [State.acquire, State.release, State.incDisc, State.decDisc, State.setWaiters, State.setExpiry, State.setNotified, State.markFreed, State.eraseChild, State.clearParent, State.link, State.unlink, modNote_notes, upd_apply]; (repeat' split) <;> simp_all
+  simp only [State.acquire, State.release, State.incDisc, State.decDisc, State.setWaiters, State.setAdopted, State.setExpiry, State.setNotified, State.markFreed, State.eraseChild, State.clearParent, State.link, State.unlink, modNote_notes, upd_apply]; (repeat' split) <;> simp_all
 @[simp] theorem unlink_f_disconnecting (s : State) (c p : NoteId) (j : NoteId) :
     ((s.unlink c p).notes j).disconnecting = (s.notes j).disconnecting := by
-  simp only [State.acquire, State.release, State.incDisc, State.decDisc, State.setWaiters, State.setExpiry, State.setNotified, State.markFreed, State.eraseChild, State.clearParent, State.link, State.unlink, modNote_notes, upd_apply]; (repeat' split) <;> simp_all
+  simp only [State.acquire, State.release, State.incDisc, State.decDisc, State.setWaiters, State.setAdopted, State.setExpiry, State.setNotified, State.markFreed, State.eraseChild, State.clearParent, State.link, State.unlink, modNote_notes, upd_apply]; (repeat' split) <;> simp_all
 @[simp] theorem unlink_f_waiters (s : State) (c p : NoteId) (j : NoteId) :
     ((s.unlink c p).notes j).waiters = (s.notes j).waiters := by
-  simp only [State.acquire, State.release, State.incDisc, State.decDisc, State.setWaiters, State.setExpiry, State.setNotified, State.markFreed, State.eraseChild, State.clearParent, State.link, State.unlink, modNote_notes, upd_apply]; (repeat' split) <;> simp_all
+  simp only [State.acquire, State.release, State.incDisc, State.decDisc, State.setWaiters, State.setAdopted, State.setExpiry, State.setNotified, State.markFreed, State.eraseChild, State.clearParent, State.link, State.unlink, modNote_notes, upd_apply]; (repeat' split) <;> simp_all
 @[simp] theorem unlink_f_lockHolder (s : State) (c p : NoteId) (j : NoteId) :
     ((s.unlink c p).notes j).lockHolder = (s.notes j).lockHolder := by
-  simp only [State.acquire, State.release, State.incDisc, State.decDisc, State.setWaiters, State.setExpiry, State.setNotified, State.markFreed, State.eraseChild, State.clearParent, State.link, State.unlink, modNote_notes, upd_apply]; (repeat' split) <;> simp_all
+  simp only [State.acquire, State.release, State.incDisc, State.decDisc, State.setWaiters, State.setAdopted, State.setExpiry, State.setNotified, State.markFreed, State.eraseChild, State.clearParent, State.link, State.unlink, modNote_notes, upd_apply]; (repeat' split) <;> simp_all
 @[simp] theorem unlink_f_allocated (s : State) (c p : NoteId) (j : NoteId) :
     ((s.unlink c p).notes j).allocated = (s.notes j).allocated := by
-  simp only [State.acquire, State.release, State.incDisc, State.decDisc, State.setWaiters, State.setExpiry, State.setNotified, State.markFreed, State.eraseChild, State.clearParent, State.link, State.unlink, modNote_notes, upd_apply]; (repeat' split) <;> simp_all
+  simp only [State.acquire, State.release, State.incDisc, State.decDisc, State.setWaiters, State.setAdopted, State.setExpiry, State.setNotified, State.markFreed, State.eraseChild, State.clearParent, State.link, State.unlink, modNote_notes, upd_apply]; (repeat' split) <;> simp_all
 @[simp] theorem unlink_f_freed (s : State) (c p : NoteId) (j : NoteId) :
     ((s.unlink c p).notes j).freed = (s.notes j).freed := by
-  simp only [State.acquire, State.release, State.incDisc, State.decDisc, State.setWaiters, State.setExpiry, State.setNotified, State.markFreed, State.eraseChild, State.clearParent, State.link, State.unlink, modNote_notes, upd_apply]; (repeat' split) <;> simp_all
+  simp only [State.acquire, State.release, State.incDisc, State.decDisc, State.setWaiters, State.setAdopted, State.setExpiry, State.setNotified, State.markFreed, State.eraseChild, State.clearParent, State.link, State.unlink, modNote_notes, upd_apply]; (repeat' split) <;> simp_all
+@[simp] theorem unlink_f_adopted (s : State) (c p : NoteId) (j : NoteId) :
+    ((s.unlink c p).notes j).adopted = (s.notes j).adopted := by
+  simp only [State.acquire, State.release, State.incDisc, State.decDisc, State.setWaiters, State.setAdopted, State.setExpiry, State.setNotified, State.markFreed, State.eraseChild, State.clearParent, State.link, State.unlink, modNote_notes, upd_apply]; (repeat' split) <;> simp_all
 @[simp] theorem allocNote_f (s : State) (k : NoteId) (par : Option NoteId) (dl : Dl) (j : NoteId) :
     (s.allocNote k par dl).notes j =
       if j = k then { NoteRec.blank with expiry := dl, allocated := true } else s.notes j := by
@@ -857,6 +937,9 @@ theorem newExpiryVal_ne (s : State) {n j : NoteId} (k : DK) (h : j ≠ n) :
 @[simp] theorem newExpiry_f_freed (s : State) (n : NoteId) (k : DK) (j : NoteId) :
     ((newExpiry s n k).notes j).freed = (s.notes j).freed := by
   unfold newExpiry; split <;> simp
+@[simp] theorem newExpiry_f_adopted (s : State) (n : NoteId) (k : DK) (j : NoteId) :
+    ((newExpiry s n k).notes j).adopted = (s.notes j).adopted := by
+  unfold newExpiry; split <;> simp
 @[simp] theorem newExpiry_f_expiry (s : State) (n : NoteId) (k : DK) (j : NoteId) :
     ((newExpiry s n k).notes j).expiry = newExpiryVal s n k j := by
   unfold newExpiry newExpiryVal; split <;> simp
@@ -883,6 +966,9 @@ theorem newExpiryVal_ne (s : State) {n j : NoteId} (k : DK) (h : j ≠ n) :
   unfold afterDeadline; split <;> simp
 @[simp] theorem afterDeadline_f_freed (s : State) (t : Tid) (n : NoteId) (nt : Dl) (k : DK) (j : NoteId) :
     ((afterDeadline s t n nt k).notes j).freed = (s.notes j).freed := by
+  unfold afterDeadline; split <;> simp
+@[simp] theorem afterDeadline_f_adopted (s : State) (t : Tid) (n : NoteId) (nt : Dl) (k : DK) (j : NoteId) :
+    ((afterDeadline s t n nt k).notes j).adopted = (s.notes j).adopted := by
   unfold afterDeadline; split <;> simp
 @[simp] theorem afterDeadline_f_expiry (s : State) (t : Tid) (n : NoteId) (nt : Dl) (k : DK) (j : NoteId) :
     ((afterDeadline s t n nt k).notes j).expiry = newExpiryVal s n k j := by
@@ -978,6 +1064,9 @@ def NK.bornNow : NK → Bool
 @[simp] theorem afterNotify_f_freed (s : State) (t : Tid) (n : NoteId) (k : NK) (j : NoteId) :
     ((afterNotify s t n k).notes j).freed = (s.notes j).freed := by
   cases k <;> simp [afterNotify]
+@[simp] theorem afterNotify_f_adopted (s : State) (t : Tid) (n : NoteId) (k : NK) (j : NoteId) :
+    ((afterNotify s t n k).notes j).adopted = (s.notes j).adopted := by
+  cases k <;> simp [afterNotify]
 /-- The value of `expiry` after `notify (n)` has returned to its caller. -/
 def NK.expiryVal (s : State) (n : NoteId) (k : NK) (j : NoteId) : Dl :=
   match k with
@@ -1034,40 +1123,97 @@ theorem afterNotify_notes_of (s : State) (t : Tid) (n : NoteId) {k : NK}
   cases k with
   | ofApi => simp [afterNotify, NK.bornNow]
   | ofDeadline k => simp only [afterNotify, afterDeadline_bornNotified]; rfl
+@[simp] theorem childUnlink_recs (s : State) (f : Frame) (rest : List Frame) (top : Top) : (childUnlink s f rest top).recs = s.recs := by
+  unfold childUnlink; split <;> rfl
+@[simp] theorem childUnlink_now (s : State) (f : Frame) (rest : List Frame) (top : Top) : (childUnlink s f rest top).now = s.now := by
+  unfold childUnlink; split <;> rfl
+@[simp] theorem childUnlink_users (s : State) (f : Frame) (rest : List Frame) (top : Top) : (childUnlink s f rest top).users = s.users := by
+  unfold childUnlink; split <;> rfl
+@[simp] theorem childUnlink_freeing (s : State) (f : Frame) (rest : List Frame) (top : Top) : (childUnlink s f rest top).freeing = s.freeing := by
+  unfold childUnlink; split <;> rfl
+@[simp] theorem childUnlink_published (s : State) (f : Frame) (rest : List Frame) (top : Top) : (childUnlink s f rest top).published = s.published := by
+  unfold childUnlink; split <;> rfl
+@[simp] theorem childUnlink_notifyCalled (s : State) (f : Frame) (rest : List Frame) (top : Top) : (childUnlink s f rest top).notifyCalled = s.notifyCalled := by
+  unfold childUnlink; split <;> rfl
+@[simp] theorem childUnlink_ownDl (s : State) (f : Frame) (rest : List Frame) (top : Top) : (childUnlink s f rest top).ownDl = s.ownDl := by
+  unfold childUnlink; split <;> rfl
+@[simp] theorem childUnlink_cparent (s : State) (f : Frame) (rest : List Frame) (top : Top) : (childUnlink s f rest top).cparent = s.cparent := by
+  unfold childUnlink; split <;> rfl
+@[simp] theorem childUnlink_ancEver (s : State) (f : Frame) (rest : List Frame) (top : Top) : (childUnlink s f rest top).ancEver = s.ancEver := by
+  unfold childUnlink; split <;> rfl
+@[simp] theorem childUnlink_pathMin (s : State) (f : Frame) (rest : List Frame) (top : Top) : (childUnlink s f rest top).pathMin = s.pathMin := by
+  unfold childUnlink; split <;> rfl
+@[simp] theorem childUnlink_bornNotified (s : State) (f : Frame) (rest : List Frame) (top : Top) : (childUnlink s f rest top).bornNotified = s.bornNotified := by
+  unfold childUnlink; split <;> rfl
+@[simp] theorem childUnlink_after (s : State) (f : Frame) (rest : List Frame) (top : Top) : (childUnlink s f rest top).after = s.after := by
+  unfold childUnlink; split <;> rfl
+@[simp] theorem childUnlink_observed (s : State) (f : Frame) (rest : List Frame) (top : Top) : (childUnlink s f rest top).observed = s.observed := by
+  unfold childUnlink; split <;> rfl
+@[simp] theorem childUnlink_pc (s : State) (f : Frame) (rest : List Frame) (top : Top) : (childUnlink s f rest top).pc = s.pc := by
+  unfold childUnlink; split <;> rfl
+@[simp] theorem childUnlink_f_notified (s : State) (f : Frame) (rest : List Frame) (top : Top) (j : NoteId) :
+    ((childUnlink s f rest top).notes j).notified = (s.notes j).notified := by
+  unfold childUnlink; split <;> simp
+@[simp] theorem childUnlink_f_expiry (s : State) (f : Frame) (rest : List Frame) (top : Top) (j : NoteId) :
+    ((childUnlink s f rest top).notes j).expiry = (s.notes j).expiry := by
+  unfold childUnlink; split <;> simp
+@[simp] theorem childUnlink_f_disconnecting (s : State) (f : Frame) (rest : List Frame) (top : Top) (j : NoteId) :
+    ((childUnlink s f rest top).notes j).disconnecting = (s.notes j).disconnecting := by
+  unfold childUnlink; split <;> simp
+@[simp] theorem childUnlink_f_waiters (s : State) (f : Frame) (rest : List Frame) (top : Top) (j : NoteId) :
+    ((childUnlink s f rest top).notes j).waiters = (s.notes j).waiters := by
+  unfold childUnlink; split <;> simp
+@[simp] theorem childUnlink_f_lockHolder (s : State) (f : Frame) (rest : List Frame) (top : Top) (j : NoteId) :
+    ((childUnlink s f rest top).notes j).lockHolder = (s.notes j).lockHolder := by
+  unfold childUnlink; split <;> simp
+@[simp] theorem childUnlink_f_adopted (s : State) (f : Frame) (rest : List Frame) (top : Top) (j : NoteId) :
+    ((childUnlink s f rest top).notes j).adopted = (s.notes j).adopted := by
+  unfold childUnlink; split <;> simp
+@[simp] theorem childUnlink_f_allocated (s : State) (f : Frame) (rest : List Frame) (top : Top) (j : NoteId) :
+    ((childUnlink s f rest top).notes j).allocated = (s.notes j).allocated := by
+  unfold childUnlink; split <;> simp
+@[simp] theorem childUnlink_f_freed (s : State) (f : Frame) (rest : List Frame) (top : Top) (j : NoteId) :
+    ((childUnlink s f rest top).notes j).freed = (s.notes j).freed := by
+  unfold childUnlink; split <;> simp
+@[simp] theorem childUnlink_f_parent (s : State) (f : Frame) (rest : List Frame) (top : Top) (j : NoteId) :
+    ((childUnlink s f rest top).notes j).parent =
+      if (childUnlinks s f rest top).isSome = true ∧ j = f.note then none else (s.notes j).parent := by
+  unfold childUnlink; split <;> simp_all
+@[simp] theorem childUnlink_f_children (s : State) (f : Frame) (rest : List Frame) (top : Top) (j : NoteId) :
+    ((childUnlink s f rest top).notes j).children =
+      if childUnlinks s f rest top = some j then (s.notes j).children.erase f.note
+      else (s.notes j).children := by
+  unfold childUnlink; split <;> simp_all
+  · rename_i p hp; split <;> simp_all
+    intro h; exact absurd h.symm ‹_›
 @[simp] theorem childReturn_recs (s : State) (t : Tid) (f : Frame) (rest : List Frame) (top : Top) : (childReturn s t f rest top).recs = s.recs := by
-  unfold childReturn; split <;> rfl
+  unfold childReturn; split <;> simp
 @[simp] theorem childReturn_now (s : State) (t : Tid) (f : Frame) (rest : List Frame) (top : Top) : (childReturn s t f rest top).now = s.now := by
-  unfold childReturn; split <;> rfl
+  unfold childReturn; split <;> simp
 @[simp] theorem childReturn_users (s : State) (t : Tid) (f : Frame) (rest : List Frame) (top : Top) : (childReturn s t f rest top).users = s.users := by
-  unfold childReturn; split <;> rfl
+  unfold childReturn; split <;> simp
 @[simp] theorem childReturn_freeing (s : State) (t : Tid) (f : Frame) (rest : List Frame) (top : Top) : (childReturn s t f rest top).freeing = s.freeing := by
-  unfold childReturn; split <;> rfl
+  unfold childReturn; split <;> simp
 @[simp] theorem childReturn_published (s : State) (t : Tid) (f : Frame) (rest : List Frame) (top : Top) : (childReturn s t f rest top).published = s.published := by
-  unfold childReturn; split <;> rfl
+  unfold childReturn; split <;> simp
 @[simp] theorem childReturn_notifyCalled (s : State) (t : Tid) (f : Frame) (rest : List Frame) (top : Top) : (childReturn s t f rest top).notifyCalled = s.notifyCalled := by
-  unfold childReturn; split <;> rfl
+  unfold childReturn; split <;> simp
 @[simp] theorem childReturn_ownDl (s : State) (t : Tid) (f : Frame) (rest : List Frame) (top : Top) : (childReturn s t f rest top).ownDl = s.ownDl := by
-  unfold childReturn; split <;> rfl
+  unfold childReturn; split <;> simp
 @[simp] theorem childReturn_cparent (s : State) (t : Tid) (f : Frame) (rest : List Frame) (top : Top) : (childReturn s t f rest top).cparent = s.cparent := by
-  unfold childReturn; split <;> rfl
+  unfold childReturn; split <;> simp
 @[simp] theorem childReturn_ancEver (s : State) (t : Tid) (f : Frame) (rest : List Frame) (top : Top) : (childReturn s t f rest top).ancEver = s.ancEver := by
-  unfold childReturn; split <;> rfl
+  unfold childReturn; split <;> simp
 @[simp] theorem childReturn_pathMin (s : State) (t : Tid) (f : Frame) (rest : List Frame) (top : Top) : (childReturn s t f rest top).pathMin = s.pathMin := by
-  unfold childReturn; split <;> rfl
+  unfold childReturn; split <;> simp
 @[simp] theorem childReturn_bornNotified (s : State) (t : Tid) (f : Frame) (rest : List Frame) (top : Top) : (childReturn s t f rest top).bornNotified = s.bornNotified := by
-  unfold childReturn; split <;> rfl
+  unfold childReturn; split <;> simp
 @[simp] theorem childReturn_after (s : State) (t : Tid) (f : Frame) (rest : List Frame) (top : Top) : (childReturn s t f rest top).after = s.after := by
-  unfold childReturn; split <;> rfl
+  unfold childReturn; split <;> simp
 @[simp] theorem childReturn_observed (s : State) (t : Tid) (f : Frame) (rest : List Frame) (top : Top) : (childReturn s t f rest top).observed = s.observed := by
-  unfold childReturn; split <;> rfl
+  unfold childReturn; split <;> simp
 @[simp] theorem childReturn_pc (s : State) (t : Tid) (f : Frame) (rest : List Frame) (top : Top) :
     (childReturn s t f rest top).pc = upd s.pc t (childReturnPc f rest top) := by
-  unfold childReturn; split <;> rfl
-@[simp] theorem childReturn_f_parent (s : State) (t : Tid) (f : Frame) (rest : List Frame) (top : Top) (j : NoteId) :
-    ((childReturn s t f rest top).notes j).parent = (s.notes j).parent := by
-  unfold childReturn; split <;> simp
-@[simp] theorem childReturn_f_children (s : State) (t : Tid) (f : Frame) (rest : List Frame) (top : Top) (j : NoteId) :
-    ((childReturn s t f rest top).notes j).children = (s.notes j).children := by
   unfold childReturn; split <;> simp
 @[simp] theorem childReturn_f_notified (s : State) (t : Tid) (f : Frame) (rest : List Frame) (top : Top) (j : NoteId) :
     ((childReturn s t f rest top).notes j).notified = (s.notes j).notified := by
@@ -1075,15 +1221,14 @@ theorem afterNotify_notes_of (s : State) (t : Tid) (n : NoteId) {k : NK}
 @[simp] theorem childReturn_f_expiry (s : State) (t : Tid) (f : Frame) (rest : List Frame) (top : Top) (j : NoteId) :
     ((childReturn s t f rest top).notes j).expiry = (s.notes j).expiry := by
   unfold childReturn; split <;> simp
-@[simp] theorem childReturn_f_disconnecting (s : State) (t : Tid) (f : Frame) (rest : List Frame) (top : Top) (j : NoteId) :
-    ((childReturn s t f rest top).notes j).disconnecting =
-      if childReturnDec rest top = true ∧ j = top.n then (s.notes j).disconnecting - 1 else (s.notes j).disconnecting := by
-  unfold childReturn; split <;> simp_all
 @[simp] theorem childReturn_f_waiters (s : State) (t : Tid) (f : Frame) (rest : List Frame) (top : Top) (j : NoteId) :
     ((childReturn s t f rest top).notes j).waiters = (s.notes j).waiters := by
   unfold childReturn; split <;> simp
 @[simp] theorem childReturn_f_lockHolder (s : State) (t : Tid) (f : Frame) (rest : List Frame) (top : Top) (j : NoteId) :
     ((childReturn s t f rest top).notes j).lockHolder = (s.notes j).lockHolder := by
+  unfold childReturn; split <;> simp
+@[simp] theorem childReturn_f_adopted (s : State) (t : Tid) (f : Frame) (rest : List Frame) (top : Top) (j : NoteId) :
+    ((childReturn s t f rest top).notes j).adopted = (s.notes j).adopted := by
   unfold childReturn; split <;> simp
 @[simp] theorem childReturn_f_allocated (s : State) (t : Tid) (f : Frame) (rest : List Frame) (top : Top) (j : NoteId) :
     ((childReturn s t f rest top).notes j).allocated = (s.notes j).allocated := by
@@ -1091,6 +1236,71 @@ theorem afterNotify_notes_of (s : State) (t : Tid) (n : NoteId) {k : NK}
 @[simp] theorem childReturn_f_freed (s : State) (t : Tid) (f : Frame) (rest : List Frame) (top : Top) (j : NoteId) :
     ((childReturn s t f rest top).notes j).freed = (s.notes j).freed := by
   unfold childReturn; split <;> simp
+@[simp] theorem childReturn_f_parent (s : State) (t : Tid) (f : Frame) (rest : List Frame) (top : Top) (j : NoteId) :
+    ((childReturn s t f rest top).notes j).parent =
+      if (childUnlinks s f rest top).isSome = true ∧ j = f.note then none else (s.notes j).parent := by
+  unfold childReturn; split <;> simp
+@[simp] theorem childReturn_f_children (s : State) (t : Tid) (f : Frame) (rest : List Frame) (top : Top) (j : NoteId) :
+    ((childReturn s t f rest top).notes j).children =
+      if childUnlinks s f rest top = some j then (s.notes j).children.erase f.note
+      else (s.notes j).children := by
+  unfold childReturn; split <;> simp
+@[simp] theorem childReturn_f_disconnecting (s : State) (t : Tid) (f : Frame) (rest : List Frame) (top : Top) (j : NoteId) :
+    ((childReturn s t f rest top).notes j).disconnecting =
+      if childReturnDec f rest top = some j then (s.notes j).disconnecting - 1
+      else (s.notes j).disconnecting := by
+  unfold childReturn; split <;> simp_all
+  · rename_i k hk; split <;> simp_all
+    intro h; exact absurd h.symm ‹_›
+@[simp] theorem childScanStart_recs (s : State) (t : Tid) (f : Frame) (rest : List Frame) (top : Top) : (childScanStart s t f rest top).recs = s.recs := rfl
+@[simp] theorem childScanStart_now (s : State) (t : Tid) (f : Frame) (rest : List Frame) (top : Top) : (childScanStart s t f rest top).now = s.now := rfl
+@[simp] theorem childScanStart_users (s : State) (t : Tid) (f : Frame) (rest : List Frame) (top : Top) : (childScanStart s t f rest top).users = s.users := rfl
+@[simp] theorem childScanStart_freeing (s : State) (t : Tid) (f : Frame) (rest : List Frame) (top : Top) : (childScanStart s t f rest top).freeing = s.freeing := rfl
+@[simp] theorem childScanStart_published (s : State) (t : Tid) (f : Frame) (rest : List Frame) (top : Top) : (childScanStart s t f rest top).published = s.published := rfl
+@[simp] theorem childScanStart_notifyCalled (s : State) (t : Tid) (f : Frame) (rest : List Frame) (top : Top) : (childScanStart s t f rest top).notifyCalled = s.notifyCalled := rfl
+@[simp] theorem childScanStart_ownDl (s : State) (t : Tid) (f : Frame) (rest : List Frame) (top : Top) : (childScanStart s t f rest top).ownDl = s.ownDl := rfl
+@[simp] theorem childScanStart_cparent (s : State) (t : Tid) (f : Frame) (rest : List Frame) (top : Top) : (childScanStart s t f rest top).cparent = s.cparent := rfl
+@[simp] theorem childScanStart_ancEver (s : State) (t : Tid) (f : Frame) (rest : List Frame) (top : Top) : (childScanStart s t f rest top).ancEver = s.ancEver := rfl
+@[simp] theorem childScanStart_pathMin (s : State) (t : Tid) (f : Frame) (rest : List Frame) (top : Top) : (childScanStart s t f rest top).pathMin = s.pathMin := rfl
+@[simp] theorem childScanStart_bornNotified (s : State) (t : Tid) (f : Frame) (rest : List Frame) (top : Top) : (childScanStart s t f rest top).bornNotified = s.bornNotified := rfl
+@[simp] theorem childScanStart_after (s : State) (t : Tid) (f : Frame) (rest : List Frame) (top : Top) : (childScanStart s t f rest top).after = s.after := rfl
+@[simp] theorem childScanStart_observed (s : State) (t : Tid) (f : Frame) (rest : List Frame) (top : Top) : (childScanStart s t f rest top).observed = s.observed := rfl
+@[simp] theorem childScanStart_pc (s : State) (t : Tid) (f : Frame) (rest : List Frame) (top : Top) :
+    (childScanStart s t f rest top).pc =
+      upd s.pc t (childLoopStartPc (s.notes f.note).children f rest top) := rfl
+theorem childScanStart_notes (s : State) (t : Tid) (f : Frame) (rest : List Frame) (top : Top) :
+    (childScanStart s t f rest top).notes = (s.setAdopted f.note false).notes := rfl
+@[simp] theorem childScanStart_f_parent (s : State) (t : Tid) (f : Frame) (rest : List Frame) (top : Top) (j : NoteId) :
+    ((childScanStart s t f rest top).notes j).parent = (s.notes j).parent := by
+  simp [childScanStart]
+@[simp] theorem childScanStart_f_children (s : State) (t : Tid) (f : Frame) (rest : List Frame) (top : Top) (j : NoteId) :
+    ((childScanStart s t f rest top).notes j).children = (s.notes j).children := by
+  simp [childScanStart]
+@[simp] theorem childScanStart_f_notified (s : State) (t : Tid) (f : Frame) (rest : List Frame) (top : Top) (j : NoteId) :
+    ((childScanStart s t f rest top).notes j).notified = (s.notes j).notified := by
+  simp [childScanStart]
+@[simp] theorem childScanStart_f_expiry (s : State) (t : Tid) (f : Frame) (rest : List Frame) (top : Top) (j : NoteId) :
+    ((childScanStart s t f rest top).notes j).expiry = (s.notes j).expiry := by
+  simp [childScanStart]
+@[simp] theorem childScanStart_f_disconnecting (s : State) (t : Tid) (f : Frame) (rest : List Frame) (top : Top) (j : NoteId) :
+    ((childScanStart s t f rest top).notes j).disconnecting = (s.notes j).disconnecting := by
+  simp [childScanStart]
+@[simp] theorem childScanStart_f_waiters (s : State) (t : Tid) (f : Frame) (rest : List Frame) (top : Top) (j : NoteId) :
+    ((childScanStart s t f rest top).notes j).waiters = (s.notes j).waiters := by
+  simp [childScanStart]
+@[simp] theorem childScanStart_f_lockHolder (s : State) (t : Tid) (f : Frame) (rest : List Frame) (top : Top) (j : NoteId) :
+    ((childScanStart s t f rest top).notes j).lockHolder = (s.notes j).lockHolder := by
+  simp [childScanStart]
+@[simp] theorem childScanStart_f_allocated (s : State) (t : Tid) (f : Frame) (rest : List Frame) (top : Top) (j : NoteId) :
+    ((childScanStart s t f rest top).notes j).allocated = (s.notes j).allocated := by
+  simp [childScanStart]
+@[simp] theorem childScanStart_f_freed (s : State) (t : Tid) (f : Frame) (rest : List Frame) (top : Top) (j : NoteId) :
+    ((childScanStart s t f rest top).notes j).freed = (s.notes j).freed := by
+  simp [childScanStart]
+@[simp] theorem childScanStart_f_adopted (s : State) (t : Tid) (f : Frame) (rest : List Frame) (top : Top) (j : NoteId) :
+    ((childScanStart s t f rest top).notes j).adopted =
+      if j = f.note then false else (s.notes j).adopted := by
+  simp [childScanStart]
 /-- Where control goes after a waiter has been woken (or the flag stored). -/
 def childWakeNextPc (s : State) (f : Frame) (rest : List Frame) (top : Top) : PC :=
   match (s.notes f.note).waiters with
@@ -1154,7 +1364,41 @@ def childWakeNextPc (s : State) (f : Frame) (rest : List Frame) (top : Top) : PC
 @[simp] theorem childWakeNext_f_freed (s : State) (t : Tid) (f : Frame) (rest : List Frame) (top : Top) (j : NoteId) :
     ((childWakeNext s t f rest top).notes j).freed = (s.notes j).freed := by
   unfold childWakeNext; split <;> simp
-@[simp] theorem freeLoopStart_notes (s : State) (t : Tid) (n : NoteId) (par : Option NoteId) : (freeLoopStart s t n par).notes = s.notes := rfl
+@[simp] theorem childWakeNext_f_adopted (s : State) (t : Tid) (f : Frame) (rest : List Frame) (top : Top) (j : NoteId) :
+    ((childWakeNext s t f rest top).notes j).adopted =
+      if j = f.note ∧ (s.notes f.note).waiters = [] then false else (s.notes j).adopted := by
+  unfold childWakeNext; split <;> simp_all
+theorem freeLoopStart_notes (s : State) (t : Tid) (n : NoteId) (par : Option NoteId) : (freeLoopStart s t n par).notes = (s.setAdopted n false).notes := rfl
+@[simp] theorem freeLoopStart_f_parent (s : State) (t : Tid) (n : NoteId) (par : Option NoteId) (j : NoteId) :
+    ((freeLoopStart s t n par).notes j).parent = (s.notes j).parent := by
+  simp [freeLoopStart]
+@[simp] theorem freeLoopStart_f_children (s : State) (t : Tid) (n : NoteId) (par : Option NoteId) (j : NoteId) :
+    ((freeLoopStart s t n par).notes j).children = (s.notes j).children := by
+  simp [freeLoopStart]
+@[simp] theorem freeLoopStart_f_notified (s : State) (t : Tid) (n : NoteId) (par : Option NoteId) (j : NoteId) :
+    ((freeLoopStart s t n par).notes j).notified = (s.notes j).notified := by
+  simp [freeLoopStart]
+@[simp] theorem freeLoopStart_f_expiry (s : State) (t : Tid) (n : NoteId) (par : Option NoteId) (j : NoteId) :
+    ((freeLoopStart s t n par).notes j).expiry = (s.notes j).expiry := by
+  simp [freeLoopStart]
+@[simp] theorem freeLoopStart_f_disconnecting (s : State) (t : Tid) (n : NoteId) (par : Option NoteId) (j : NoteId) :
+    ((freeLoopStart s t n par).notes j).disconnecting = (s.notes j).disconnecting := by
+  simp [freeLoopStart]
+@[simp] theorem freeLoopStart_f_waiters (s : State) (t : Tid) (n : NoteId) (par : Option NoteId) (j : NoteId) :
+    ((freeLoopStart s t n par).notes j).waiters = (s.notes j).waiters := by
+  simp [freeLoopStart]
+@[simp] theorem freeLoopStart_f_lockHolder (s : State) (t : Tid) (n : NoteId) (par : Option NoteId) (j : NoteId) :
+    ((freeLoopStart s t n par).notes j).lockHolder = (s.notes j).lockHolder := by
+  simp [freeLoopStart]
+@[simp] theorem freeLoopStart_f_allocated (s : State) (t : Tid) (n : NoteId) (par : Option NoteId) (j : NoteId) :
+    ((freeLoopStart s t n par).notes j).allocated = (s.notes j).allocated := by
+  simp [freeLoopStart]
+@[simp] theorem freeLoopStart_f_freed (s : State) (t : Tid) (n : NoteId) (par : Option NoteId) (j : NoteId) :
+    ((freeLoopStart s t n par).notes j).freed = (s.notes j).freed := by
+  simp [freeLoopStart]
+@[simp] theorem freeLoopStart_f_adopted (s : State) (t : Tid) (n : NoteId) (par : Option NoteId) (j : NoteId) :
+    ((freeLoopStart s t n par).notes j).adopted = if j = n then false else (s.notes j).adopted := by
+  simp [freeLoopStart]
 @[simp] theorem freeLoopStart_recs (s : State) (t : Tid) (n : NoteId) (par : Option NoteId) : (freeLoopStart s t n par).recs = s.recs := rfl
 @[simp] theorem freeLoopStart_now (s : State) (t : Tid) (n : NoteId) (par : Option NoteId) : (freeLoopStart s t n par).now = s.now := rfl
 @[simp] theorem freeLoopStart_users (s : State) (t : Tid) (n : NoteId) (par : Option NoteId) : (freeLoopStart s t n par).users = s.users := rfl
